@@ -78,686 +78,696 @@ def run(ctx):
     lbody = body_of(L)
 
     # ------------------------------------------------------------------ R1
-    R = 'C06-R1'
-    commits = [x for x in walk(lbody) if x.get('kind') == 'BinaryOperator' and x.get('opcode') == '=' and canon(x['inner'][0]) == 'this.data.raw']
-    ctx.require(len(commits) == 2, 'load(): expected two commits of this->data.raw (PPM, BMP), found %d' % len(commits))
-    allocs = []
-    for x in walk(lbody):
-        if x.get('kind') == 'CallExpr' and call_name(x) in ('malloc', 'malloc_unique', 'calloc'):
-            allocs.append(x)
-    for cm in commits:
-        blk = enclosing(cm, ('CompoundStmt',))
-        # field values committed alongside
-        env = {}
-        for s in kids(blk):
-            s0 = strip(s)
-            if s0.get('kind') == 'BinaryOperator' and s0.get('opcode') == '=' and canon(s0['inner'][0]) in ('this.width', 'this.height', 'this.has_alpha', 'this.channel_width'):
-                env[canon(s0['inner'][0])] = s0['inner'][1]
-        ctx.require(len(env) == 4, 'load(): format fields are not all committed next to this->data.raw')
-        # which allocation feeds this commit
-        src = strip(cm['inner'][1])
-        feeding = []
-        for a in allocs:
-            if enclosing(a, ('CompoundStmt',)) is blk or any(anc is blk for anc in ancestors(a)):
-                asg = a.get('_p')
-                while asg is not None and asg.get('kind') not in ('BinaryOperator', 'CXXOperatorCallExpr', 'VarDecl', 'CompoundStmt'):
-                    asg = asg.get('_p')
-                tgt = None
-                if asg is not None and asg.get('kind') == 'BinaryOperator':
-                    tgt = canon(asg['inner'][0])
-                elif asg is not None and asg.get('kind') == 'CXXOperatorCallExpr':
-                    tgt = canon(asg['inner'][1])
-                elif asg is not None and asg.get('kind') == 'VarDecl':
-                    tgt = asg.get('name')
-                if tgt and (tgt in canon(src) or canon(src).startswith(tgt.split('.')[0])):
-                    feeding.append((a, tgt))
-        ctx.require(len(feeding) >= 1, 'load(): allocation feeding the commit at %s not found' % loc_str(cm))
-        for a, tgt in feeding:
-            size = call_args(a)[0]
-            env2 = dict(env)
-            # a local flag assigned a constant in this branch (BMP: has_alpha = false / true)
-            for k_, v_ in list(env2.items()):
-                rd = ref_decl(v_)
-                if rd and rd.get('kind') == 'VarDecl':
-                    cv = const_assign_before(a, rd['id'])
-                    if cv is not None:
-                        env2[k_] = cv
-            inv = u.by_id and None
-            gds = next(m for m in methods if m.get('name') == 'get_data_size')
-            inv_expr = kids([x for x in walk(body_of(gds)) if x.get('kind') == 'ReturnStmt'][0])[0]
-            want = prod_form(inv_expr, env2)
-            got = prod_form(size, _local_env(size, u))
-            key = 'alloc@%s' % ('ppm' if 'new_data' in tgt else 'bmp-' + ('rgb' if env2.get('this.has_alpha') == 0 else 'bitfields' if env2.get('this.has_alpha') == 1 else '?'))
-            ctx.check(got == want, R, key, a, 'allocation %s == invariant %s' % (pf_str(got), pf_str(want)),
-                      'buffer allocated with %s but the committed format needs %s bytes: pixel accesses near the end overflow the heap block' % (pf_str(got), pf_str(want)))
-    # bytes read into the PPM buffer
-    reads = [c for c in walk(lbody) if c.get('kind') == 'CallExpr' and call_name(c) == 'freadx' and 'new_data.raw' in canon(call_args(c)[1])]
-    ctx.require(len(reads) == 1, 'load(): freadx into the PPM buffer not found')
-    rsize = call_args(reads[0])[2]
-    # channels_factor = (COLOR ? 3 : 1) + alpha  <=  3 + alpha
-    cf = None
-    for x in walk(rsize):
-        rd = ref_decl(x)
-        vd = _local_def(u, rd) if rd else None
-        if vd is not None and vd.get('name') and 'factor' in vd.get('name'):
-            cf = vd
-    okr = False
-    why = 'cannot relate the read size to the allocation'
-    if cf is not None:
-        ppm_alloc = next(a for a in allocs if call_name(a) == 'malloc' and 'new_data' in canon(a.get('_p').get('_p')['inner'][0]) ) if False else None
-    # structural comparison: read size = W*H*F*(cw/8) and allocation = W*H*(3+alpha)*(cw/8) where F = (c ? 3 : 1) + alpha
-    a_ppm = [a for a in allocs if call_name(a) == 'malloc']
-    if a_ppm and cf is not None:
-        got_r = prod_form(rsize, {})
-        got_a = prod_form(call_args(a_ppm[0])[0], {})
-        fr = [f_ for f_ in got_r[1] if f_ not in got_a[1]]
-        fa = [f_ for f_ in got_a[1] if f_ not in got_r[1]]
-        if got_r[0] == got_a[0] and len(fr) == 1 and len(fa) == 1 and fr[0] == cf.get('name'):
-            init = strip(kids(cf)[-1])
-            # F = (cond ? 3 : 1) + alpha, compare with (3 + alpha)
-            if init.get('kind') == 'BinaryOperator' and init.get('opcode') == '+':
-                parts = [strip(p) for p in init['inner']]
-                cond_part = next((p for p in parts if p.get('kind') == 'ConditionalOperator' and int_value(p['inner'][1]) is not None and int_value(p['inner'][2]) is not None and max(int_value(p['inner'][1]), int_value(p['inner'][2])) > 1), None)
-                other = next((p for p in parts if p is not cond_part), None)
-                if cond_part is not None and other is not None:
-                    mx = max(int_value(cond_part['inner'][1]), int_value(cond_part['inner'][2]))
-                    alpha_term = prod_form(other, {})
-                    okr = fa[0] == '(%d + %s)' % (mx, pf_str(alpha_term)) or fa[0] == '(%s + %d)' % (pf_str(alpha_term), mx)
-                    why = 'read extent factor %s can exceed the allocation factor %s' % (nf(init), fa[0])
-    ctx.check(okr, R, 'ppm-read<=alloc', reads[0], 'bytes read = W*H*F*(cw/8) with F <= 3+alpha', why)
+    with ctx.section('C06-R1', L):
+        R = 'C06-R1'
+        commits = [x for x in walk(lbody) if x.get('kind') == 'BinaryOperator' and x.get('opcode') == '=' and canon(x['inner'][0]) == 'this.data.raw']
+        ctx.need(len(commits) == 2, 'load(): expected two commits of this->data.raw (PPM, BMP), found %d' % len(commits))
+        allocs = []
+        for x in walk(lbody):
+            if x.get('kind') == 'CallExpr' and call_name(x) in ('malloc', 'malloc_unique', 'calloc'):
+                allocs.append(x)
+        for cm in commits:
+            blk = enclosing(cm, ('CompoundStmt',))
+            # field values committed alongside
+            env = {}
+            for s in kids(blk):
+                s0 = strip(s)
+                if s0.get('kind') == 'BinaryOperator' and s0.get('opcode') == '=' and canon(s0['inner'][0]) in ('this.width', 'this.height', 'this.has_alpha', 'this.channel_width'):
+                    env[canon(s0['inner'][0])] = s0['inner'][1]
+            ctx.need(len(env) == 4, 'load(): format fields are not all committed next to this->data.raw')
+            # which allocation feeds this commit
+            src = strip(cm['inner'][1])
+            feeding = []
+            for a in allocs:
+                if enclosing(a, ('CompoundStmt',)) is blk or any(anc is blk for anc in ancestors(a)):
+                    asg = a.get('_p')
+                    while asg is not None and asg.get('kind') not in ('BinaryOperator', 'CXXOperatorCallExpr', 'VarDecl', 'CompoundStmt'):
+                        asg = asg.get('_p')
+                    tgt = None
+                    if asg is not None and asg.get('kind') == 'BinaryOperator':
+                        tgt = canon(asg['inner'][0])
+                    elif asg is not None and asg.get('kind') == 'CXXOperatorCallExpr':
+                        tgt = canon(asg['inner'][1])
+                    elif asg is not None and asg.get('kind') == 'VarDecl':
+                        tgt = asg.get('name')
+                    if tgt and (tgt in canon(src) or canon(src).startswith(tgt.split('.')[0])):
+                        feeding.append((a, tgt))
+            ctx.need(len(feeding) >= 1, 'load(): allocation feeding the commit at %s not found' % loc_str(cm))
+            for a, tgt in feeding:
+                size = call_args(a)[0]
+                env2 = dict(env)
+                # a local flag assigned a constant in this branch (BMP: has_alpha = false / true)
+                for k_, v_ in list(env2.items()):
+                    rd = ref_decl(v_)
+                    if rd and rd.get('kind') == 'VarDecl':
+                        cv = const_assign_before(a, rd['id'])
+                        if cv is not None:
+                            env2[k_] = cv
+                inv = u.by_id and None
+                gds = next(m for m in methods if m.get('name') == 'get_data_size')
+                inv_expr = kids([x for x in walk(body_of(gds)) if x.get('kind') == 'ReturnStmt'][0])[0]
+                want = prod_form(inv_expr, env2)
+                got = prod_form(size, _local_env(size, u))
+                key = 'alloc@%s' % ('ppm' if 'new_data' in tgt else 'bmp-' + ('rgb' if env2.get('this.has_alpha') == 0 else 'bitfields' if env2.get('this.has_alpha') == 1 else '?'))
+                ctx.check(got == want, R, key, a, 'allocation %s == invariant %s' % (pf_str(got), pf_str(want)),
+                          'buffer allocated with %s but the committed format needs %s bytes: pixel accesses near the end overflow the heap block' % (pf_str(got), pf_str(want)))
+        # bytes read into the PPM buffer
+        reads = [c for c in walk(lbody) if c.get('kind') == 'CallExpr' and call_name(c) == 'freadx' and 'new_data.raw' in canon(call_args(c)[1])]
+        ctx.need(len(reads) == 1, 'load(): freadx into the PPM buffer not found')
+        rsize = call_args(reads[0])[2]
+        # channels_factor = (COLOR ? 3 : 1) + alpha  <=  3 + alpha
+        cf = None
+        for x in walk(rsize):
+            rd = ref_decl(x)
+            vd = _local_def(u, rd) if rd else None
+            if vd is not None and vd.get('name') and 'factor' in vd.get('name'):
+                cf = vd
+        okr = False
+        why = 'cannot relate the read size to the allocation'
+        if cf is not None:
+            ppm_alloc = next(a for a in allocs if call_name(a) == 'malloc' and 'new_data' in canon(a.get('_p').get('_p')['inner'][0]) ) if False else None
+        # structural comparison: read size = W*H*F*(cw/8) and allocation = W*H*(3+alpha)*(cw/8) where F = (c ? 3 : 1) + alpha
+        a_ppm = [a for a in allocs if call_name(a) == 'malloc']
+        if a_ppm and cf is not None:
+            got_r = prod_form(rsize, {})
+            got_a = prod_form(call_args(a_ppm[0])[0], {})
+            fr = [f_ for f_ in got_r[1] if f_ not in got_a[1]]
+            fa = [f_ for f_ in got_a[1] if f_ not in got_r[1]]
+            if got_r[0] == got_a[0] and len(fr) == 1 and len(fa) == 1 and fr[0] == cf.get('name'):
+                init = strip(kids(cf)[-1])
+                # F = (cond ? 3 : 1) + alpha, compare with (3 + alpha)
+                if init.get('kind') == 'BinaryOperator' and init.get('opcode') == '+':
+                    parts = [strip(p) for p in init['inner']]
+                    cond_part = next((p for p in parts if p.get('kind') == 'ConditionalOperator' and int_value(p['inner'][1]) is not None and int_value(p['inner'][2]) is not None and max(int_value(p['inner'][1]), int_value(p['inner'][2])) > 1), None)
+                    other = next((p for p in parts if p is not cond_part), None)
+                    if cond_part is not None and other is not None:
+                        mx = max(int_value(cond_part['inner'][1]), int_value(cond_part['inner'][2]))
+                        alpha_term = prod_form(other, {})
+                        okr = fa[0] == '(%d + %s)' % (mx, pf_str(alpha_term)) or fa[0] == '(%s + %d)' % (pf_str(alpha_term), mx)
+                        why = 'read extent factor %s can exceed the allocation factor %s' % (nf(init), fa[0])
+        ctx.check(okr, R, 'ppm-read<=alloc', reads[0], 'bytes read = W*H*F*(cw/8) with F <= 3+alpha', why)
 
     # ------------------------------------------------------------------ R2
-    R = 'C06-R2'
-    gray_if = None
-    for x in walk(lbody):
-        if x.get('kind') == 'IfStmt':
-            cond, then, els = if_parts(x)
-            if 'GRAYSCALE_PPM' in canon(cond) and then is not None and data_subscripts(then):
-                gray_if = x
-    ctx.require(gray_if is not None, 'load(): grayscale expansion block not found')
-    _, gthen, _ = if_parts(gray_if)
-    ctx.check(all(c.get('_off', 0) < gray_if.get('_off', 0) for c in commits[:1]) , R, 'expansion-after-commit', gray_if, 'expansion runs on the committed buffer', 'expansion precedes the commit')
-    strides = {}
-    for x in walk(gthen):
-        if x.get('kind') == 'VarDecl' and kids(x) and 'stride' in (x.get('name') or ''):
-            strides[x['name']] = nf(kids(x)[-1])
-    ok_st = strides.get('dest_stride') == '(this.has_alpha ? 4 : 3)' and strides.get('src_stride') == '(this.has_alpha ? 2 : 1)'
-    ctx.check(ok_st, R, 'strides', gthen, 'dest stride alpha?4:3, source stride alpha?2:1', 'strides are %s' % strides)
-    loops = [x for x in walk(gthen) if x.get('kind') == 'ForStmt']
-    ctx.require(len(loops) == 2, 'grayscale expansion: expected two nested loops')
-    for lp, dim in zip(loops, ('height', 'width')):
-        init, cv, cond, inc, body = for_parts(lp)
-        vd = next((v for v in walk(init) if v.get('kind') == 'VarDecl'), None)
-        r = relation(cond, True)
-        inc_s = strip(inc)
-        okl = vd is not None and nf(kids(vd)[-1]) == '(this.%s - 1)' % dim and r is not None and r[1] == '>=' and int_value(r[2]) == 0 and \
-            inc_s.get('kind') == 'UnaryOperator' and inc_s.get('opcode') == '--' and (int_type_info(dtype(vd)) or (0, False))[1]
-        ctx.check(okl, R, 'backward-iteration|' + dim, lp, 'iterates %s-1 down to 0 in a signed type' % dim,
-                  'in-place expansion must walk from the last pixel backwards (expanded pixels are larger than packed ones): loop is `%s`' % src_text(lp, 60).split('{')[0])
-    # per width branch
-    subs = data_subscripts(gthen)
-    ctx.require(len(subs) >= 24, 'grayscale expansion subscripts not found (%d)' % len(subs))
-    pixel = '(x + (this.width * y))'
-    by_branch = {}
-    for s in subs:
-        obj, mem = is_data_member(s['inner'][0])
-        by_branch.setdefault(mem, []).append(s)
-    for mem, ss in sorted(by_branch.items()):
-        w = int(mem[2:])
-        first_write = None
-        last_read = None
-        for s in ss:
-            p = s.get('_p')
-            is_write = p is not None and p.get('kind') == 'BinaryOperator' and p.get('opcode') == '=' and strip(p['inner'][0]) is s
-            pf = prod_form(s['inner'][1], {})
-            idx = nf(s['inner'][1])
-            have = {(a, op, b) for a, op, b, _, _ in relations(s)}
-            cw_ok = any(a == 'this.channel_width' and op == '==' and b == str(w) for a, op, b in have)
-            alpha_fact = any(canon(n_) == 'this.has_alpha' and pol for n_, pol in atoms(path_facts(s)))
-            stride = 'dest_stride' if is_write else 'src_stride'
-            from guard import split_const
-            base, kk = split_const(idx)
-            pix = '(' + ' + '.join(sorted(['x', '(' + ' * '.join(sorted(['this.width', 'y'])) + ')'])) + ')'
-            want_base = '(' + ' * '.join(sorted([pix, stride])) + ')'
-            m_ok = kk if base == want_base else None
-            kmax = 3 if is_write else 1
-            k_ok = m_ok is not None and (m_ok < kmax or (m_ok == kmax and alpha_fact))
-            key = '%s|%s[%s+%s]' % (mem, 'dst' if is_write else 'src', stride, m_ok if m_ok is not None else '?')
-            n_same = sum(1 for o in ctx.obs if o.key.startswith(key))
-            ctx.check(cw_ok and k_ok, R, key + ('' if not n_same else '#%d' % (n_same + 1)), s, '%s access inside its pixel' % ('destination' if is_write else 'source'),
-                      '%s index %s is not (y*W+x)*%s + k with k inside the pixel (k=%s, alpha established=%s, channel_width==%d established=%s)' % ('destination' if is_write else 'source', idx, stride, m_ok, alpha_fact, w, cw_ok))
-            if is_write and first_write is None:
-                first_write = s
-            if not is_write:
-                last_read = s
-        ctx.check(first_write is not None and last_read is not None and last_read.get('_off', 0) < first_write.get('_off', 0), R, mem + '|reads-before-writes', last_read or ss[0],
-                  'gray and alpha samples are read before the destination pixel is written',
-                  'a source sample is read after the destination pixel has been (partly) written: for the first pixel the regions overlap and the sample is already overwritten')
-        # temporaries hold full-width samples
-        blk = enclosing(ss[0], ('CompoundStmt',))
-        temps = [v for v in kids(blk) if v.get('kind') == 'DeclStmt']
-        tv = [vd for t in temps for vd in kids(t) if vd.get('kind') == 'VarDecl' and data_subscripts(vd)]
-        okt = bool(tv) and all((int_type_info(dtype(vd)) or (0, 0))[0] >= w for vd in tv)
-        ctx.check(okt, R, mem + '|temporary-width', tv[0] if tv else ss[0], 'temporaries are %d bits wide' % w, 'a %d-bit sample passes through a narrower temporary (%s)' % (w, [qtype(v) for v in tv]))
+    with ctx.section('C06-R2', L):
+        R = 'C06-R2'
+        gray_if = None
+        for x in walk(lbody):
+            if x.get('kind') == 'IfStmt':
+                cond, then, els = if_parts(x)
+                if 'GRAYSCALE_PPM' in canon(cond) and then is not None and data_subscripts(then):
+                    gray_if = x
+        ctx.need(gray_if is not None, 'load(): grayscale expansion block not found')
+        _, gthen, _ = if_parts(gray_if)
+        ctx.check(all(c.get('_off', 0) < gray_if.get('_off', 0) for c in commits[:1]) , R, 'expansion-after-commit', gray_if, 'expansion runs on the committed buffer', 'expansion precedes the commit')
+        strides = {}
+        for x in walk(gthen):
+            if x.get('kind') == 'VarDecl' and kids(x) and 'stride' in (x.get('name') or ''):
+                strides[x['name']] = nf(kids(x)[-1])
+        ok_st = strides.get('dest_stride') == '(this.has_alpha ? 4 : 3)' and strides.get('src_stride') == '(this.has_alpha ? 2 : 1)'
+        ctx.check(ok_st, R, 'strides', gthen, 'dest stride alpha?4:3, source stride alpha?2:1', 'strides are %s' % strides)
+        loops = [x for x in walk(gthen) if x.get('kind') == 'ForStmt']
+        ctx.need(len(loops) == 2, 'grayscale expansion: expected two nested loops')
+        for lp, dim in zip(loops, ('height', 'width')):
+            init, cv, cond, inc, body = for_parts(lp)
+            vd = next((v for v in walk(init) if v.get('kind') == 'VarDecl'), None)
+            r = relation(cond, True)
+            inc_s = strip(inc)
+            okl = vd is not None and nf(kids(vd)[-1]) == '(this.%s - 1)' % dim and r is not None and r[1] == '>=' and int_value(r[2]) == 0 and \
+                inc_s.get('kind') == 'UnaryOperator' and inc_s.get('opcode') == '--' and (int_type_info(dtype(vd)) or (0, False))[1]
+            ctx.check(okl, R, 'backward-iteration|' + dim, lp, 'iterates %s-1 down to 0 in a signed type' % dim,
+                      'in-place expansion must walk from the last pixel backwards (expanded pixels are larger than packed ones): loop is `%s`' % src_text(lp, 60).split('{')[0])
+        # per width branch
+        subs = data_subscripts(gthen)
+        ctx.need(len(subs) >= 24, 'grayscale expansion subscripts not found (%d)' % len(subs))
+        pixel = '(x + (this.width * y))'
+        by_branch = {}
+        for s in subs:
+            obj, mem = is_data_member(s['inner'][0])
+            by_branch.setdefault(mem, []).append(s)
+        for mem, ss in sorted(by_branch.items()):
+            w = int(mem[2:])
+            first_write = None
+            last_read = None
+            for s in ss:
+                p = s.get('_p')
+                is_write = p is not None and p.get('kind') == 'BinaryOperator' and p.get('opcode') == '=' and strip(p['inner'][0]) is s
+                pf = prod_form(s['inner'][1], {})
+                idx = nf(s['inner'][1])
+                have = {(a, op, b) for a, op, b, _, _ in relations(s)}
+                cw_ok = any(a == 'this.channel_width' and op == '==' and b == str(w) for a, op, b in have)
+                alpha_fact = any(canon(n_) == 'this.has_alpha' and pol for n_, pol in atoms(path_facts(s)))
+                stride = 'dest_stride' if is_write else 'src_stride'
+                from guard import split_const
+                base, kk = split_const(idx)
+                pix = '(' + ' + '.join(sorted(['x', '(' + ' * '.join(sorted(['this.width', 'y'])) + ')'])) + ')'
+                want_base = '(' + ' * '.join(sorted([pix, stride])) + ')'
+                m_ok = kk if base == want_base else None
+                kmax = 3 if is_write else 1
+                k_ok = m_ok is not None and (m_ok < kmax or (m_ok == kmax and alpha_fact))
+                key = '%s|%s[%s+%s]' % (mem, 'dst' if is_write else 'src', stride, m_ok if m_ok is not None else '?')
+                n_same = sum(1 for o in ctx.obs if o.key.startswith(key))
+                ctx.check(cw_ok and k_ok, R, key + ('' if not n_same else '#%d' % (n_same + 1)), s, '%s access inside its pixel' % ('destination' if is_write else 'source'),
+                          '%s index %s is not (y*W+x)*%s + k with k inside the pixel (k=%s, alpha established=%s, channel_width==%d established=%s)' % ('destination' if is_write else 'source', idx, stride, m_ok, alpha_fact, w, cw_ok))
+                if is_write and first_write is None:
+                    first_write = s
+                if not is_write:
+                    last_read = s
+            ctx.check(first_write is not None and last_read is not None and last_read.get('_off', 0) < first_write.get('_off', 0), R, mem + '|reads-before-writes', last_read or ss[0],
+                      'gray and alpha samples are read before the destination pixel is written',
+                      'a source sample is read after the destination pixel has been (partly) written: for the first pixel the regions overlap and the sample is already overwritten')
+            # temporaries hold full-width samples
+            blk = enclosing(ss[0], ('CompoundStmt',))
+            temps = [v for v in kids(blk) if v.get('kind') == 'DeclStmt']
+            tv = [vd for t in temps for vd in kids(t) if vd.get('kind') == 'VarDecl' and data_subscripts(vd)]
+            okt = bool(tv) and all((int_type_info(dtype(vd)) or (0, 0))[0] >= w for vd in tv)
+            ctx.check(okt, R, mem + '|temporary-width', tv[0] if tv else ss[0], 'temporaries are %d bits wide' % w, 'a %d-bit sample passes through a narrower temporary (%s)' % (w, [qtype(v) for v in tv]))
 
     # ------------------------------------------------------------------ R3
-    R = 'C06-R3'
-    E = Exc([u, uf, us], [refine_size_guarded_at])
-    raw_allocs = [a for a in allocs if call_name(a) in ('malloc', 'calloc')]
-    for i, a in enumerate(raw_allocs):
-        asg = enclosing(a, ('BinaryOperator',))
-        tgt = canon(asg['inner'][0]) if asg is not None else '?'
-        commit = next((c for c in commits if tgt in canon(c['inner'][1])), None)
-        ctx.require(commit is not None, 'load(): commit of %s not found' % tgt)
-        st = containing_statement(a)
-        blk = st.get('_p')
-        sibs = list(kids(blk))
-        i0 = next(j for j, s in enumerate(sibs) if s is st)
-        i1 = next(j for j, s in enumerate(sibs) if any(x is commit for x in walk(s)))
-        for s in sibs[i0 + 1:i1]:
-            if s.get('kind') == 'CXXTryStmt':
-                continue   # judged by its handlers below
-            thr = E._node(s, L, u)
-            thr.pop('<rethrow>', None)
-            if not thr:
-                continue
-            key = 'raw-block|%s|%s' % (tgt, s.get('kind') + '@' + src_text(s, 30))
-            # null test: nothing to free
-            if s.get('kind') == 'IfStmt':
-                cond, then, els = if_parts(s)
-                if nf(cond) in ('!%s' % tgt, '(%s == nullptr)' % tgt, '(nullptr == %s)' % tgt):
-                    ctx.ok(R, key, s, 'throws only when the allocation failed (nothing to release)')
+    with ctx.section('C06-R3', L):
+        R = 'C06-R3'
+        E = Exc([u, uf, us], [refine_size_guarded_at])
+        raw_allocs = [a for a in allocs if call_name(a) in ('malloc', 'calloc')]
+        for i, a in enumerate(raw_allocs):
+            asg = enclosing(a, ('BinaryOperator',))
+            tgt = canon(asg['inner'][0]) if asg is not None else '?'
+            commit = next((c for c in commits if tgt in canon(c['inner'][1])), None)
+            ctx.need(commit is not None, 'load(): commit of %s not found' % tgt)
+            st = containing_statement(a)
+            blk = st.get('_p')
+            sibs = list(kids(blk))
+            i0 = next(j for j, s in enumerate(sibs) if s is st)
+            i1 = next(j for j, s in enumerate(sibs) if any(x is commit for x in walk(s)))
+            for s in sibs[i0 + 1:i1]:
+                if s.get('kind') == 'CXXTryStmt':
+                    continue   # judged by its handlers below
+                thr = E._node(s, L, u)
+                thr.pop('<rethrow>', None)
+                if not thr:
                     continue
-            ctx.bad(R, key, s, 'a call that can throw %s runs while %s holds an unowned heap block: the block leaks on the exception path' % (sorted(thr), tgt))
-        for s in sibs[i0 + 1:i1]:
-            if s.get('kind') == 'CXXTryStmt':
-                handlers = kids(s)[1:]
-                good = False
-                for h in handlers:
-                    hb = kids(h)[-1]
-                    frees = [c for c in walk(hb) if c.get('kind') == 'CallExpr' and call_name(c) == 'free' and canon(call_args(c)[0]) == tgt]
-                    reth = [t for t in walk(hb) if t.get('kind') == 'CXXThrowExpr' and not kids(t)]
-                    ht = norm_type(qtype(kids(h)[0])) if kids(h) and kids(h)[0].get('kind') == 'VarDecl' else '...'
-                    if frees and reth and ht in ('...', 'std::exception', 'exception'):
-                        good = True
-                ctx.check(good, R, 'raw-block|%s|handler-frees-and-rethrows' % tgt, s, 'handler frees the block and rethrows', 'the try block protecting %s has no handler for every exception that frees it and rethrows' % tgt)
-    owned = [a for a in allocs if call_name(a) == 'malloc_unique']
-    ctx.check(len(owned) >= 4, R, 'bmp-blocks-owned', owned[0] if owned else L, '%d BMP buffers owned by unique_ptr' % len(owned), 'BMP buffers are no longer owned by unique_ptr')
-    for cm in commits:
-        st = containing_statement(cm)
-        blk = st.get('_p')
-        sibs = list(kids(blk))
-        i1 = next(j for j, s in enumerate(sibs) if s is st)
-        later = {}
-        for s in sibs[i1 + 1:]:
-            later.update(E._node(s, L, u))
-        ctx.check(not later, R, 'commit-last|%s' % ('ppm' if 'new_data.raw' in canon(cm['inner'][1]) else 'bmp'), cm, 'nothing after the commit can throw', 'code after the commit can throw %s: the object is left half-loaded' % sorted(later))
+                key = 'raw-block|%s|%s' % (tgt, s.get('kind') + '@' + src_text(s, 30))
+                # null test: nothing to free
+                if s.get('kind') == 'IfStmt':
+                    cond, then, els = if_parts(s)
+                    if nf(cond) in ('!%s' % tgt, '(%s == nullptr)' % tgt, '(nullptr == %s)' % tgt):
+                        ctx.ok(R, key, s, 'throws only when the allocation failed (nothing to release)')
+                        continue
+                ctx.bad(R, key, s, 'a call that can throw %s runs while %s holds an unowned heap block: the block leaks on the exception path' % (sorted(thr), tgt))
+            for s in sibs[i0 + 1:i1]:
+                if s.get('kind') == 'CXXTryStmt':
+                    handlers = kids(s)[1:]
+                    good = False
+                    for h in handlers:
+                        hb = kids(h)[-1]
+                        frees = [c for c in walk(hb) if c.get('kind') == 'CallExpr' and call_name(c) == 'free' and canon(call_args(c)[0]) == tgt]
+                        reth = [t for t in walk(hb) if t.get('kind') == 'CXXThrowExpr' and not kids(t)]
+                        ht = norm_type(qtype(kids(h)[0])) if kids(h) and kids(h)[0].get('kind') == 'VarDecl' else '...'
+                        if frees and reth and ht in ('...', 'std::exception', 'exception'):
+                            good = True
+                    ctx.check(good, R, 'raw-block|%s|handler-frees-and-rethrows' % tgt, s, 'handler frees the block and rethrows', 'the try block protecting %s has no handler for every exception that frees it and rethrows' % tgt)
+        owned = [a for a in allocs if call_name(a) == 'malloc_unique']
+        ctx.check(len(owned) >= 4, R, 'bmp-blocks-owned', owned[0] if owned else L, '%d BMP buffers owned by unique_ptr' % len(owned), 'BMP buffers are no longer owned by unique_ptr')
+        for cm in commits:
+            st = containing_statement(cm)
+            blk = st.get('_p')
+            sibs = list(kids(blk))
+            i1 = next(j for j, s in enumerate(sibs) if s is st)
+            later = {}
+            for s in sibs[i1 + 1:]:
+                later.update(E._node(s, L, u))
+            ctx.check(not later, R, 'commit-last|%s' % ('ppm' if 'new_data.raw' in canon(cm['inner'][1]) else 'bmp'), cm, 'nothing after the commit can throw', 'code after the commit can throw %s: the object is left half-loaded' % sorted(later))
 
     # ------------------------------------------------------------------ R4
-    R = 'C06-R4'
-    for c in walk(lbody):
-        if c.get('kind') == 'CallExpr' and call_name(c) in ('fgetc', 'getc', 'fscanf', 'fread', 'fgets') and (callee_decl(c, u) or {}).get('_p') is None or \
-           (c.get('kind') == 'CallExpr' and call_name(c) in ('fgetc', 'fscanf', 'fread') ):
-            nm = call_name(c)
-            if nm not in ('fgetc', 'getc', 'fscanf', 'fread'):
-                continue
-            p = c.get('_p')
-            while p is not None and p.get('kind') in TRANSPARENT | {'ImplicitCastExpr'}:
-                p = p.get('_p')
-            tested = False
-            if p is not None and p.get('kind') == 'BinaryOperator' and p.get('opcode') in ('==', '!=', '<', '>', '<=', '>='):
-                tested = True
-            if p is not None and p.get('kind') == 'VarDecl':
-                # the variable is compared later and the mismatch throws
-                vids = {p['id']}
-                for _ in range(3):      # values derived from it (a named test result) count as well
+    with ctx.section('C06-R4', L):
+        R = 'C06-R4'
+        for c in walk(lbody):
+            if c.get('kind') == 'CallExpr' and call_name(c) in ('fgetc', 'getc', 'fscanf', 'fread', 'fgets') and (callee_decl(c, u) or {}).get('_p') is None or \
+               (c.get('kind') == 'CallExpr' and call_name(c) in ('fgetc', 'fscanf', 'fread') ):
+                nm = call_name(c)
+                if nm not in ('fgetc', 'getc', 'fscanf', 'fread'):
+                    continue
+                p = c.get('_p')
+                while p is not None and p.get('kind') in TRANSPARENT | {'ImplicitCastExpr'}:
+                    p = p.get('_p')
+                tested = False
+                if p is not None and p.get('kind') == 'BinaryOperator' and p.get('opcode') in ('==', '!=', '<', '>', '<=', '>='):
+                    tested = True
+                if p is not None and p.get('kind') == 'VarDecl':
+                    # the variable is compared later and the mismatch throws
+                    vids = {p['id']}
+                    for _ in range(3):      # values derived from it (a named test result) count as well
+                        for x in walk(lbody):
+                            if x.get('kind') == 'VarDecl' and kids(x) and x['id'] not in vids and any(y.get('kind') == 'DeclRefExpr' and (y.get('referencedDecl') or {}).get('id') in vids for y in walk(kids(x)[-1])):
+                                vids.add(x['id'])
                     for x in walk(lbody):
-                        if x.get('kind') == 'VarDecl' and kids(x) and x['id'] not in vids and any(y.get('kind') == 'DeclRefExpr' and (y.get('referencedDecl') or {}).get('id') in vids for y in walk(kids(x)[-1])):
-                            vids.add(x['id'])
-                for x in walk(lbody):
-                    if x.get('kind') == 'IfStmt':
-                        cond, then, els = if_parts(x)
-                        if any(y.get('kind') == 'DeclRefExpr' and (y.get('referencedDecl') or {}).get('id') in vids for y in walk(cond)) and (not falls_through(then) or (els is not None and not falls_through(els))):
-                            tested = True
-            ctx.check(tested, R, '%s@%s' % (nm, src_text(c, 40)), c, 'result of %s is tested' % nm, 'the result of %s is ignored: a truncated file is not noticed here' % nm)
-    # header loop progress
-    hl = None
-    for x in walk(lbody):
-        if x.get('kind') == 'ForStmt' and for_parts(x)[2] is None and any(c.get('kind') == 'CallExpr' and call_name(c) == 'fgets' for c in walk(x)):
-            hl = x
-    ctx.require(hl is not None, 'load(): P7 header loop not found')
-    hb = loop_body(hl)
-    line = next((v for v in walk(hb) if v.get('kind') == 'VarDecl' and any(c.get('kind') == 'CallExpr' and call_name(c) == 'fgets' for c in walk(v))), None)
-    ctx.require(line is not None, 'load(): header line variable not found')
+                        if x.get('kind') == 'IfStmt':
+                            cond, then, els = if_parts(x)
+                            if any(y.get('kind') == 'DeclRefExpr' and (y.get('referencedDecl') or {}).get('id') in vids for y in walk(cond)) and (not falls_through(then) or (els is not None and not falls_through(els))):
+                                tested = True
+                ctx.check(tested, R, '%s@%s' % (nm, src_text(c, 40)), c, 'result of %s is tested' % nm, 'the result of %s is ignored: a truncated file is not noticed here' % nm)
+        # header loop progress
+        hl = None
+        for x in walk(lbody):
+            if x.get('kind') == 'ForStmt' and for_parts(x)[2] is None and any(c.get('kind') == 'CallExpr' and call_name(c) == 'fgets' for c in walk(x)):
+                hl = x
+        ctx.need(hl is not None, 'load(): P7 header loop not found')
+        hb = loop_body(hl)
+        line = next((v for v in walk(hb) if v.get('kind') == 'VarDecl' and any(c.get('kind') == 'CallExpr' and call_name(c) == 'fgets' for c in walk(v))), None)
+        ctx.need(line is not None, 'load(): header line variable not found')
 
-    def recognised(site):
-        for n_, pol in atoms(path_facts(site)):
-            n0 = strip(n_)
-            if pol and n0.get('kind') == 'CallExpr' and call_name(n0) == 'starts_with':
-                a = call_args(n0)
-                lit = next((y for y in walk(a[1]) if y.get('kind') == 'StringLiteral'), {})
-                if (ref_decl(a[0]) or {}).get('id') == line['id'] and lit.get('kind') == 'StringLiteral' and len(lit.get('value', '""')) > 2:
-                    return True
-            r = relation(n_, pol)
-            if r and r[1] == '==':
-                for p_, q_ in ((r[0], r[2]), (r[2], r[0])):
-                    ql = next((y for y in walk(q_) if y.get('kind') == 'StringLiteral'), {})
-                    if (ref_decl(p_) or {}).get('id') == line['id'] and ql.get('kind') == 'StringLiteral' and len(ql.get('value', '""')) > 2:
+        def recognised(site):
+            for n_, pol in atoms(path_facts(site)):
+                n0 = strip(n_)
+                if pol and n0.get('kind') == 'CallExpr' and call_name(n0) == 'starts_with':
+                    a = call_args(n0)
+                    lit = next((y for y in walk(a[1]) if y.get('kind') == 'StringLiteral'), {})
+                    if (ref_decl(a[0]) or {}).get('id') == line['id'] and lit.get('kind') == 'StringLiteral' and len(lit.get('value', '""')) > 2:
                         return True
-        return False
-    # exits of one turn: continue statements and the end of the body
-    turn_ends = [x for x in walk(hb) if x.get('kind') == 'ContinueStmt' and enclosing(x, LOOPS) is hl]
-    bad_turn = [x for x in turn_ends if not recognised(x)]
-    # end of body: each leaf branch of the command chain either recognised, breaks, or throws
-    chain = [s for s in kids(hb) if s.get('kind') == 'IfStmt']
-    leaves = []
+                r = relation(n_, pol)
+                if r and r[1] == '==':
+                    for p_, q_ in ((r[0], r[2]), (r[2], r[0])):
+                        ql = next((y for y in walk(q_) if y.get('kind') == 'StringLiteral'), {})
+                        if (ref_decl(p_) or {}).get('id') == line['id'] and ql.get('kind') == 'StringLiteral' and len(ql.get('value', '""')) > 2:
+                            return True
+            return False
+        # exits of one turn: continue statements and the end of the body
+        turn_ends = [x for x in walk(hb) if x.get('kind') == 'ContinueStmt' and enclosing(x, LOOPS) is hl]
+        bad_turn = [x for x in turn_ends if not recognised(x)]
+        # end of body: each leaf branch of the command chain either recognised, breaks, or throws
+        chain = [s for s in kids(hb) if s.get('kind') == 'IfStmt']
+        leaves = []
 
-    def leaf_branches(s):
-        cond, then, els = if_parts(s)
-        leaves.append(then)
-        if els is None:
-            leaves.append(None)
-        elif els.get('kind') == 'IfStmt':
-            leaf_branches(els)
-        else:
-            leaves.append(els)
-    for s in chain:
-        leaf_branches(s)
-    for lf in leaves:
-        if lf is None:
-            bad_turn.append(hb)
-            continue
-        if not falls_through(lf):
-            continue
-        dummy = {'kind': 'NullStmt', '_p': lf}
-        if lf.get('kind') == 'CompoundStmt':
-            lf.setdefault('inner', []).append(dummy)
-            try:
-                if not recognised(dummy):
+        def leaf_branches(s):
+            cond, then, els = if_parts(s)
+            leaves.append(then)
+            if els is None:
+                leaves.append(None)
+            elif els.get('kind') == 'IfStmt':
+                leaf_branches(els)
+            else:
+                leaves.append(els)
+        for s in chain:
+            leaf_branches(s)
+        for lf in leaves:
+            if lf is None:
+                bad_turn.append(hb)
+                continue
+            if not falls_through(lf):
+                continue
+            dummy = {'kind': 'NullStmt', '_p': lf}
+            if lf.get('kind') == 'CompoundStmt':
+                lf.setdefault('inner', []).append(dummy)
+                try:
+                    if not recognised(dummy):
+                        bad_turn.append(lf)
+                finally:
+                    lf['inner'].pop()
+            else:
+                if not recognised(lf):
                     bad_turn.append(lf)
-            finally:
-                lf['inner'].pop()
-        else:
-            if not recognised(lf):
-                bad_turn.append(lf)
-    ctx.check(not bad_turn, R, 'p7-header-loop|progress', bad_turn[0] if bad_turn else hl, 'every turn recognises a non-empty header command, breaks on ENDHDR or throws (an empty line at end of file throws)',
-              'a turn of the header loop can complete without having recognised a non-empty command (%s): at end of file fgets returns an empty line forever and load() never returns' % (src_text(bad_turn[0], 70) if bad_turn else ''))
+        ctx.check(not bad_turn, R, 'p7-header-loop|progress', bad_turn[0] if bad_turn else hl, 'every turn recognises a non-empty header command, breaks on ENDHDR or throws (an empty line at end of file throws)',
+                  'a turn of the header loop can complete without having recognised a non-empty command (%s): at end of file fgets returns an empty line forever and load() never returns' % (src_text(bad_turn[0], 70) if bad_turn else ''))
 
     # ------------------------------------------------------------------ R5 / R6
-    R = 'C06-R5'
-    svb = body_of(SV)
+    with ctx.section('C06-R5', L):
+        R = 'C06-R5'
+        svb = body_of(SV)
 
-    def padding_defs(body, wname):
-        out = []
-        for v in walk(body):
-            if v.get('kind') == 'VarDecl' and v.get('name') == 'row_padding_bytes' and kids(v):
-                out.append((v, nf(kids(v)[-1], lambda t: 'W' if t == wname else None)))
-        return out
-    lp_ = padding_defs(lbody, 'w')
-    sp_ = padding_defs(svb, 'this.width')
-    want_pad = '((4 - ((W * pixel_bytes) % 4)) % 4)'
-    ctx.check(len(lp_) == 1 and lp_[0][1] == want_pad, R, 'padding|loader', lp_[0][0] if lp_ else L, want_pad, 'loader row padding is %s' % [p_[1] for p_ in lp_])
-    ctx.check(len(sp_) == 1 and sp_[0][1] == want_pad, R, 'padding|saver', sp_[0][0] if sp_ else SV, want_pad, 'saver row padding is %s' % [p_[1] for p_ in sp_])
-    # pixel_bytes on both sides
-    lpb = [nf(kids(v)[-1]) for v in walk(lbody) if v.get('kind') == 'VarDecl' and v.get('name') == 'pixel_bytes' and kids(v)]
-    spb = [nf(kids(v)[-1]) for v in walk(svb) if v.get('kind') == 'VarDecl' and v.get('name') == 'pixel_bytes' and kids(v)]
-    ctx.check(lpb == ['(header.info_header.bit_depth / 8)'] or lpb == ['(header.info_header.bit_depth.operator unsigned short() / 8)'], R, 'pixel_bytes|loader', L, 'bit_depth / 8', 'loader pixel size is %s' % lpb)
-    ctx.check(spb == ['(3 + this.has_alpha)'], R, 'pixel_bytes|saver', SV, '3 + alpha', 'saver pixel size is %s' % spb)
-    # loader skips / saver writes exactly the padding per row
-    seeks = [c for c in walk(lbody) if c.get('kind') == 'CallExpr' and call_name(c) == 'fseek' and int_value(call_args(c)[2]) == 1]
-    oks = len(seeks) == 1 and canon(call_args(seeks[0])[1]) == 'row_padding_bytes' and enclosing(seeks[0], ('ForStmt',)) is not None and \
-        (ref_decl(for_parts(enclosing(seeks[0], ('ForStmt',)))[2]['inner'][0] if False else None) is None)
-    if len(seeks) == 1:
-        lpf = enclosing(seeks[0], ('ForStmt',))
-        inner_loops = [x for x in walk(loop_body(lpf)) if x.get('kind') == 'ForStmt']
-        oks = canon(call_args(seeks[0])[1]) == 'row_padding_bytes' and not any(any(a is il for a in ancestors(seeks[0])) for il in inner_loops)
-    ctx.check(oks, R, 'padding|loader-skips-per-row', seeks[0] if seeks else L, 'fseek(row_padding_bytes, SEEK_CUR) once per row', 'loader does not skip exactly row_padding_bytes once per row')
-    def fargs(c):
-        return c['inner'][2:] if c.get('kind') == 'CXXOperatorCallExpr' else call_args(c)
-    wr = [c for c in walk(svb) if c.get('kind') in ('CallExpr', 'CXXOperatorCallExpr') and len(fargs(c)) == 2 and canon(fargs(c)[1]) == 'row_padding_bytes']
-    okw = len(wr) == 1 and canon(fargs(wr[0])[0]) == 'row_padding_data'
-    if okw:
-        lpf = enclosing(wr[0], ('ForStmt',))
-        inner_loops = [x for x in walk(loop_body(lpf)) if x.get('kind') == 'ForStmt'] if lpf else []
-        okw = lpf is not None and not any(any(a is il for a in ancestors(wr[0])) for il in inner_loops)
-        pd = next((v for v in walk(svb) if v.get('kind') == 'VarDecl' and v.get('name') == 'row_padding_data'), None)
-        okw = okw and pd is not None and '[4]' in (qtype(pd) or '')
-    ctx.check(okw, R, 'padding|saver-writes-per-row', wr[0] if wr else SV, 'writer(row_padding_data, row_padding_bytes) once per row from a 4-byte zero block', 'saver does not write exactly row_padding_bytes zero bytes once per row')
-    # in-memory row stride
-    case_bmp = None
-    case_png = None
-    for c in walk(svb):
-        if c.get('kind') == 'CaseStmt':
-            lab = canon(kids(c)[0])
-            if 'WINDOWS_BITMAP' in lab:
-                case_bmp = c
-            if 'PNG' in lab:
-                case_png = c
-    ctx.require(case_bmp is not None and case_png is not None, 'save_helper: BMP / PNG cases not found')
+        def padding_defs(body, wname):
+            out = []
+            for v in walk(body):
+                if v.get('kind') == 'VarDecl' and v.get('name') == 'row_padding_bytes' and kids(v):
+                    out.append((v, nf(kids(v)[-1], lambda t: 'W' if t == wname else None)))
+            return out
+        lp_ = padding_defs(lbody, 'w')
+        sp_ = padding_defs(svb, 'this.width')
+        want_pad = '((4 - ((W * pixel_bytes) % 4)) % 4)'
+        ctx.check(len(lp_) == 1 and lp_[0][1] == want_pad, R, 'padding|loader', lp_[0][0] if lp_ else L, want_pad, 'loader row padding is %s' % [p_[1] for p_ in lp_])
+        ctx.check(len(sp_) == 1 and sp_[0][1] == want_pad, R, 'padding|saver', sp_[0][0] if sp_ else SV, want_pad, 'saver row padding is %s' % [p_[1] for p_ in sp_])
+        # pixel_bytes on both sides
+        lpb = [nf(kids(v)[-1]) for v in walk(lbody) if v.get('kind') == 'VarDecl' and v.get('name') == 'pixel_bytes' and kids(v)]
+        spb = [nf(kids(v)[-1]) for v in walk(svb) if v.get('kind') == 'VarDecl' and v.get('name') == 'pixel_bytes' and kids(v)]
+        ctx.check(lpb == ['(header.info_header.bit_depth / 8)'] or lpb == ['(header.info_header.bit_depth.operator unsigned short() / 8)'], R, 'pixel_bytes|loader', L, 'bit_depth / 8', 'loader pixel size is %s' % lpb)
+        ctx.check(spb == ['(3 + this.has_alpha)'], R, 'pixel_bytes|saver', SV, '3 + alpha', 'saver pixel size is %s' % spb)
+        # loader skips / saver writes exactly the padding per row
+        seeks = [c for c in walk(lbody) if c.get('kind') == 'CallExpr' and call_name(c) == 'fseek' and int_value(call_args(c)[2]) == 1]
+        oks = len(seeks) == 1 and canon(call_args(seeks[0])[1]) == 'row_padding_bytes' and enclosing(seeks[0], ('ForStmt',)) is not None and \
+            (ref_decl(for_parts(enclosing(seeks[0], ('ForStmt',)))[2]['inner'][0] if False else None) is None)
+        if len(seeks) == 1:
+            lpf = enclosing(seeks[0], ('ForStmt',))
+            inner_loops = [x for x in walk(loop_body(lpf)) if x.get('kind') == 'ForStmt']
+            oks = canon(call_args(seeks[0])[1]) == 'row_padding_bytes' and not any(any(a is il for a in ancestors(seeks[0])) for il in inner_loops)
+        ctx.check(oks, R, 'padding|loader-skips-per-row', seeks[0] if seeks else L, 'fseek(row_padding_bytes, SEEK_CUR) once per row', 'loader does not skip exactly row_padding_bytes once per row')
+        def fargs(c):
+            return c['inner'][2:] if c.get('kind') == 'CXXOperatorCallExpr' else call_args(c)
+        wr = [c for c in walk(svb) if c.get('kind') in ('CallExpr', 'CXXOperatorCallExpr') and len(fargs(c)) == 2 and canon(fargs(c)[1]) == 'row_padding_bytes']
+        okw = len(wr) == 1 and canon(fargs(wr[0])[0]) == 'row_padding_data'
+        if okw:
+            lpf = enclosing(wr[0], ('ForStmt',))
+            inner_loops = [x for x in walk(loop_body(lpf)) if x.get('kind') == 'ForStmt'] if lpf else []
+            okw = lpf is not None and not any(any(a is il for a in ancestors(wr[0])) for il in inner_loops)
+            pd = next((v for v in walk(svb) if v.get('kind') == 'VarDecl' and v.get('name') == 'row_padding_data'), None)
+            okw = okw and pd is not None and '[4]' in (qtype(pd) or '')
+        ctx.check(okw, R, 'padding|saver-writes-per-row', wr[0] if wr else SV, 'writer(row_padding_data, row_padding_bytes) once per row from a 4-byte zero block', 'saver does not write exactly row_padding_bytes zero bytes once per row')
+        # in-memory row stride
+        case_bmp = None
+        case_png = None
+        for c in walk(svb):
+            if c.get('kind') == 'CaseStmt':
+                lab = canon(kids(c)[0])
+                if 'WINDOWS_BITMAP' in lab:
+                    case_bmp = c
+                if 'PNG' in lab:
+                    case_png = c
+        ctx.need(case_bmp is not None and case_png is not None, 'save_helper: BMP / PNG cases not found')
 
-    def in_case(x, c, nxt_names=('PNG', 'default')):
-        return any(a is c for a in ancestors(x))
-    # every read of the pixel buffer in the BMP case, as (base, offset polynomial): named row pointers,
-    # hoisted strides and re-associated products are seen through (E-POLY)
-    from poly import Poly, p_coeff, p_add, p_str, p_const, p_mul, p_atom
-    PL = Poly(SV, u)
-    chan = {}
-    n_reads = 0
-    ROW = lambda k_: p_mul(p_mul(p_atom('this.width'), p_atom('y')), p_const(k_))
-    in_png = lambda x_: any(a is case_png for a in ancestors(x_))
-    # (1) byte-wise copies  dst[D] = pixels[S]
-    for x in walk(case_bmp):
-        if in_png(x) or x.get('kind') != 'BinaryOperator' or x.get('opcode') != '=':
-            continue
-        src = PL.lvalue(x['inner'][1])
-        dst = PL.lvalue(x['inner'][0])
-        if not src or not dst or not src[0].startswith('this.data.'):
-            continue
-        n_reads += 1
-        S, D = src[1], dst[1]
-        # the column variable: the atom other than y / width the destination offset depends on
-        cols = sorted({a for m in D for a in m} - {'y', 'this.width'})
-        kd = D.get((), 0)
-        lin = p_coeff(D, cols[0]) if len(cols) == 1 else None
-        diff = p_add(S, D, -1)
-        want = [p_add(ROW(3), p_const(2 - 2 * kk)) for kk in range(3)]
-        ok = lin is not None and 0 <= kd <= 2 and diff == want[kd]
-        ctx.check(ok, R, 'saver|row-stride|k=%s' % kd, x, 'file byte %d of a pixel <- memory byte %d of the same pixel in row y (rows width*3 apart)' % (kd, 2 - kd),
-                  'the saver copies pixels[%s] to row byte [%s]: rows in memory are width*3 bytes apart and BMP stores B,G,R, so the source must be y*width*3 + (column) + %s' % (p_str(S), p_str(D), '2/0/-2'))
-        if ok:
-            chan[kd] = 2 - kd
-        elif lin is not None and 0 <= kd <= 2 and p_coeff(diff, 'y') is not None:
-            d0 = diff.get((), 0)
-            chan[kd] = kd + d0 if isinstance(d0, int) else None
-    # (2) whole rows handed to the writer straight from the pixel buffer (32-bit form)
-    for c in walk(case_bmp):
-        if in_png(c) or c.get('kind') not in ('CallExpr', 'CXXOperatorCallExpr'):
-            continue
-        a_ = call_args(c) if c.get('kind') == 'CallExpr' else kids(c)[2:]
-        if len(a_) != 2:
-            continue
-        pt = PL.pointer(a_[0])
-        if not pt or not pt[0].startswith('this.data.'):
-            continue
-        n_reads += 1
-        ln = PL.poly(a_[1])
-        ok = pt[1] == ROW(4) and ln == p_mul(p_atom('this.width'), p_const(4))
-        ctx.check(ok, R, 'saver|row-stride|alpha-row', c, 'row y is the width*4 bytes at y*width*4',
-                  'the saver writes %s bytes from pixels[%s] as row y; a 32-bit row is the width*4 bytes at y*width*4' % (p_str(ln), p_str(pt[1])))
-    ctx.require(n_reads >= 2, 'save_helper: BMP pixel reads not found (%d)' % n_reads)
-    # header quantities
-    ih = [f for f in u.functions if f.get('name') == 'init_bmp_header']
-    ctx.require(len(ih) == 1, 'init_bmp_header not found')
-    hb_ = body_of(ih[0])
-    asg = {canon(x['inner'][1] if x.get('kind') == 'CXXOperatorCallExpr' else x['inner'][0]): (x['inner'][2] if x.get('kind') == 'CXXOperatorCallExpr' else x['inner'][1]) for x in walk(hb_)
-           if (x.get('kind') == 'CXXOperatorCallExpr' and call_name(x) == 'operator=') or (x.get('kind') == 'BinaryOperator' and x.get('opcode') == '=')}
-    fs = asg.get('header.file_header.file_size')
-    do = asg.get('header.file_header.data_offset')
-    hs = asg.get('header.info_header.header_size')
-    okh = fs is not None and do is not None and hs is not None and nf(do) == 'header_size' and \
-        nf(fs) == '(' + ' + '.join(sorted(['header_size', '(' + ' * '.join(sorted(['height', 'pixel_bytes', 'width'])) + ')', '(' + ' * '.join(sorted(['height', 'row_padding_bytes'])) + ')'])) + ')'
-    ctx.check(okh, R, 'header|sizes', ih[0], 'file_size = header + W*H*pixel_bytes + padding*H; data_offset = header size', 'BMP header sizes: file_size=%s data_offset=%s' % (nf(fs) if fs else None, nf(do) if do else None))
-    bd = asg.get('header.info_header.bit_depth')
-    cmp_ = asg.get('header.info_header.compression')
-    ctx.check(bd is not None and nf(bd) == '(has_alpha ? 32 : 24)' and cmp_ is not None and nf(cmp_) == '(has_alpha ? 3 : 0)', R, 'header|depth-compression', ih[0], '32-bit BITFIELDS with alpha, 24-bit RGB without', 'bit depth / compression fields are %s / %s' % (nf(bd) if bd else None, nf(cmp_) if cmp_ else None))
+        def in_case(x, c, nxt_names=('PNG', 'default')):
+            return any(a is c for a in ancestors(x))
+        # every read of the pixel buffer in the BMP case, as (base, offset polynomial): named row pointers,
+        # hoisted strides and re-associated products are seen through (E-POLY)
+        from poly import Poly, p_coeff, p_add, p_str, p_const, p_mul, p_atom
+        PL = Poly(SV, u)
+        chan = {}
+        n_reads = 0
+        ROW = lambda k_: p_mul(p_mul(p_atom('this.width'), p_atom('y')), p_const(k_))
+        in_png = lambda x_: any(a is case_png for a in ancestors(x_))
+        # (1) byte-wise copies  dst[D] = pixels[S]
+        for x in walk(case_bmp):
+            if in_png(x) or x.get('kind') != 'BinaryOperator' or x.get('opcode') != '=':
+                continue
+            src = PL.lvalue(x['inner'][1])
+            dst = PL.lvalue(x['inner'][0])
+            if not src or not dst or not src[0].startswith('this.data.'):
+                continue
+            n_reads += 1
+            S, D = src[1], dst[1]
+            # the column variable: the atom other than y / width the destination offset depends on
+            cols = sorted({a for m in D for a in m} - {'y', 'this.width'})
+            kd = D.get((), 0)
+            lin = p_coeff(D, cols[0]) if len(cols) == 1 else None
+            diff = p_add(S, D, -1)
+            want = [p_add(ROW(3), p_const(2 - 2 * kk)) for kk in range(3)]
+            ok = lin is not None and 0 <= kd <= 2 and diff == want[kd]
+            ctx.check(ok, R, 'saver|row-stride|k=%s' % kd, x, 'file byte %d of a pixel <- memory byte %d of the same pixel in row y (rows width*3 apart)' % (kd, 2 - kd),
+                      'the saver copies pixels[%s] to row byte [%s]: rows in memory are width*3 bytes apart and BMP stores B,G,R, so the source must be y*width*3 + (column) + %s' % (p_str(S), p_str(D), '2/0/-2'))
+            if ok:
+                chan[kd] = 2 - kd
+            elif lin is not None and 0 <= kd <= 2 and p_coeff(diff, 'y') is not None:
+                d0 = diff.get((), 0)
+                chan[kd] = kd + d0 if isinstance(d0, int) else None
+        # (2) whole rows handed to the writer straight from the pixel buffer (32-bit form)
+        for c in walk(case_bmp):
+            if in_png(c) or c.get('kind') not in ('CallExpr', 'CXXOperatorCallExpr'):
+                continue
+            a_ = call_args(c) if c.get('kind') == 'CallExpr' else kids(c)[2:]
+            if len(a_) != 2:
+                continue
+            pt = PL.pointer(a_[0])
+            if not pt or not pt[0].startswith('this.data.'):
+                continue
+            n_reads += 1
+            ln = PL.poly(a_[1])
+            ok = pt[1] == ROW(4) and ln == p_mul(p_atom('this.width'), p_const(4))
+            ctx.check(ok, R, 'saver|row-stride|alpha-row', c, 'row y is the width*4 bytes at y*width*4',
+                      'the saver writes %s bytes from pixels[%s] as row y; a 32-bit row is the width*4 bytes at y*width*4' % (p_str(ln), p_str(pt[1])))
+        ctx.need(n_reads >= 2, 'save_helper: BMP pixel reads not found (%d)' % n_reads)
+        # header quantities
+        ih = [f for f in u.functions if f.get('name') == 'init_bmp_header']
+        ctx.require(len(ih) == 1, 'init_bmp_header not found')
+        hb_ = body_of(ih[0])
+        asg = {canon(x['inner'][1] if x.get('kind') == 'CXXOperatorCallExpr' else x['inner'][0]): (x['inner'][2] if x.get('kind') == 'CXXOperatorCallExpr' else x['inner'][1]) for x in walk(hb_)
+               if (x.get('kind') == 'CXXOperatorCallExpr' and call_name(x) == 'operator=') or (x.get('kind') == 'BinaryOperator' and x.get('opcode') == '=')}
+        fs = asg.get('header.file_header.file_size')
+        do = asg.get('header.file_header.data_offset')
+        hs = asg.get('header.info_header.header_size')
+        okh = fs is not None and do is not None and hs is not None and nf(do) == 'header_size' and \
+            nf(fs) == '(' + ' + '.join(sorted(['header_size', '(' + ' * '.join(sorted(['height', 'pixel_bytes', 'width'])) + ')', '(' + ' * '.join(sorted(['height', 'row_padding_bytes'])) + ')'])) + ')'
+        ctx.check(okh, R, 'header|sizes', ih[0], 'file_size = header + W*H*pixel_bytes + padding*H; data_offset = header size', 'BMP header sizes: file_size=%s data_offset=%s' % (nf(fs) if fs else None, nf(do) if do else None))
+        bd = asg.get('header.info_header.bit_depth')
+        cmp_ = asg.get('header.info_header.compression')
+        ctx.check(bd is not None and nf(bd) == '(has_alpha ? 32 : 24)' and cmp_ is not None and nf(cmp_) == '(has_alpha ? 3 : 0)', R, 'header|depth-compression', ih[0], '32-bit BITFIELDS with alpha, 24-bit RGB without', 'bit depth / compression fields are %s / %s' % (nf(bd) if bd else None, nf(cmp_) if cmp_ else None))
 
-    R = 'C06-R6'
-    # saver: file byte i <- memory byte chan[i]
-    ctx.check(chan == {0: 2, 1: 1, 2: 0}, R, 'bi_rgb|saver-order', case_bmp, 'file bytes (0,1,2) <- memory bytes (2,1,0)', 'saver channel map is %s' % chan)
-    lmap = {}
-    bmask = {}
-    for x in walk(lbody):
-        if x.get('kind') == 'BinaryOperator' and x.get('opcode') == '=' and strip(x['inner'][0]).get('kind') == 'ArraySubscriptExpr' and canon(strip(x['inner'][0])['inner'][0]) == 'new_data':
-            from guard import split_const
-            db, dk = split_const(canon(strip(x['inner'][0])['inner'][1]))
-            src = strip(x['inner'][1])
-            if src.get('kind') == 'ArraySubscriptExpr' and canon(src['inner'][0]) == 'row_data':
-                sb, sk = split_const(canon(src['inner'][1]))
-                if 'src_x_offset' in sb:
-                    lmap[sk] = dk
-                else:
-                    bmask[dk] = canon(src['inner'][1])
-    ctx.check(lmap == {0: 2, 1: 1, 2: 0}, R, 'bi_rgb|loader-order', L, 'memory bytes (2,1,0) <- file bytes (0,1,2)', 'loader channel map (file->memory) is %s' % lmap)
-    ctx.check(all(lmap.get(i) == chan.get(i) for i in range(3)), R, 'bi_rgb|inverse', L, 'loader and saver are mutually inverse', 'loader map %s and saver map %s are not inverse' % (lmap, chan))
-    okb = bmask.get(0, '').endswith('r_offset)') and bmask.get(1, '').endswith('g_offset)') and bmask.get(2, '').endswith('b_offset)') and bmask.get(3, '').endswith('a_offset)')
-    okb = okb or (set(bmask) == {0, 1, 2, 3} and all(('%s_offset' % c_) in bmask[i] for i, c_ in enumerate('rgba')))
-    ctx.check(okb, R, 'bitfields|channel-sources', L, 'memory r,g,b,a <- file byte at the mask\'s offset', 'BITFIELDS loader channel sources are %s' % bmask)
-    tbl = None
-    for x in walk(lbody):
-        if x.get('kind') == 'VarDecl' and x.get('name') == 'offset_for_bitmask':
-            lits = [int(y['value']) & 0xFFFFFFFF for y in walk(x) if y.get('kind') == 'IntegerLiteral']
-            pairs = [(lits[i], lits[i + 1]) for i in range(0, len(lits) - 1, 2)]
-            tbl = dict(pairs)
-    if tbl is None:
-        # the lookup may be a helper function of the mask: tabulate it by constant folding
-        from peval import PEval, Undecided, Fault
-        helper = None
-        for c_ in walk(lbody):
-            if c_.get('kind') == 'CallExpr' and len(call_args(c_)) == 1 and 'bitmask_' in canon(call_args(c_)[0]):
-                d_ = callee_decl(c_, u)
-                if d_ is not None:
-                    helper = d_ if body_of(d_) is not None else next((m for m in u.functions if m.get('mangledName') == d_.get('mangledName') and body_of(m) is not None), None)
-        if helper is not None:
-            PE_ = PEval([u])
-            tbl = {}
-            try:
-                for i_ in range(4):
-                    r_ = PE_.call_with(helper, [0xFF << (8 * i_)])
-                    if isinstance(r_, int):
-                        tbl[0xFF << (8 * i_)] = r_
-            except (Undecided, Fault):
-                tbl = None
-    if tbl is None:
-        ctx.undecided(R, 'bitfields|mask-table', L, 'the mask -> byte offset lookup is neither the offset_for_bitmask map nor a foldable helper of the mask')
-    else:
-      ctx.check(tbl == {0xFF << (8 * i): i for i in range(4)}, R, 'bitfields|mask-table', L, 'mask 0xFF<<8k -> byte k', 'mask table is %s' % ({hex(k): v for k, v in (tbl or {}).items()}))
-    ia = {k: asg.get('header.info_header.bitmask_' + k) for k in 'rgba'}
-    ctx.check(all(v is not None for v in ia.values()) and [(int_value(through(ia[k])) or 0) & 0xFFFFFFFF for k in 'rgba'] == [0xFF, 0xFF00, 0xFF0000, 0xFF000000], R, 'bitfields|saver-masks', ih[0], 'saver declares r,g,b,a at bytes 0,1,2,3 (memory order)', 'saver masks are %s' % {k: (hex(int_value(through(v)) & 0xFFFFFFFF) if v is not None and int_value(through(v)) is not None else None) for k, v in ia.items()})
+        R = 'C06-R6'
+        # saver: file byte i <- memory byte chan[i]
+        ctx.check(chan == {0: 2, 1: 1, 2: 0}, R, 'bi_rgb|saver-order', case_bmp, 'file bytes (0,1,2) <- memory bytes (2,1,0)', 'saver channel map is %s' % chan)
+        lmap = {}
+        bmask = {}
+        for x in walk(lbody):
+            if x.get('kind') == 'BinaryOperator' and x.get('opcode') == '=' and strip(x['inner'][0]).get('kind') == 'ArraySubscriptExpr' and canon(strip(x['inner'][0])['inner'][0]) == 'new_data':
+                from guard import split_const
+                db, dk = split_const(canon(strip(x['inner'][0])['inner'][1]))
+                src = strip(x['inner'][1])
+                if src.get('kind') == 'ArraySubscriptExpr' and canon(src['inner'][0]) == 'row_data':
+                    sb, sk = split_const(canon(src['inner'][1]))
+                    if 'src_x_offset' in sb:
+                        lmap[sk] = dk
+                    else:
+                        bmask[dk] = canon(src['inner'][1])
+        ctx.check(lmap == {0: 2, 1: 1, 2: 0}, R, 'bi_rgb|loader-order', L, 'memory bytes (2,1,0) <- file bytes (0,1,2)', 'loader channel map (file->memory) is %s' % lmap)
+        ctx.check(all(lmap.get(i) == chan.get(i) for i in range(3)), R, 'bi_rgb|inverse', L, 'loader and saver are mutually inverse', 'loader map %s and saver map %s are not inverse' % (lmap, chan))
+        okb = bmask.get(0, '').endswith('r_offset)') and bmask.get(1, '').endswith('g_offset)') and bmask.get(2, '').endswith('b_offset)') and bmask.get(3, '').endswith('a_offset)')
+        okb = okb or (set(bmask) == {0, 1, 2, 3} and all(('%s_offset' % c_) in bmask[i] for i, c_ in enumerate('rgba')))
+        ctx.check(okb, R, 'bitfields|channel-sources', L, 'memory r,g,b,a <- file byte at the mask\'s offset', 'BITFIELDS loader channel sources are %s' % bmask)
+        tbl = None
+        for x in walk(lbody):
+            if x.get('kind') == 'VarDecl' and x.get('name') == 'offset_for_bitmask':
+                lits = [int(y['value']) & 0xFFFFFFFF for y in walk(x) if y.get('kind') == 'IntegerLiteral']
+                pairs = [(lits[i], lits[i + 1]) for i in range(0, len(lits) - 1, 2)]
+                tbl = dict(pairs)
+        if tbl is None:
+            # the lookup may be a helper function of the mask: tabulate it by constant folding
+            from peval import PEval, Undecided, Fault
+            helper = None
+            for c_ in walk(lbody):
+                if c_.get('kind') == 'CallExpr' and len(call_args(c_)) == 1 and 'bitmask_' in canon(call_args(c_)[0]):
+                    d_ = callee_decl(c_, u)
+                    if d_ is not None:
+                        helper = d_ if body_of(d_) is not None else next((m for m in u.functions if m.get('mangledName') == d_.get('mangledName') and body_of(m) is not None), None)
+            if helper is not None:
+                PE_ = PEval([u])
+                tbl = {}
+                try:
+                    for i_ in range(4):
+                        r_ = PE_.call_with(helper, [0xFF << (8 * i_)])
+                        if isinstance(r_, int):
+                            tbl[0xFF << (8 * i_)] = r_
+                except (Undecided, Fault):
+                    tbl = None
+        if tbl is None:
+            ctx.undecided(R, 'bitfields|mask-table', L, 'the mask -> byte offset lookup is neither the offset_for_bitmask map nor a foldable helper of the mask')
+        else:
+          ctx.check(tbl == {0xFF << (8 * i): i for i in range(4)}, R, 'bitfields|mask-table', L, 'mask 0xFF<<8k -> byte k', 'mask table is %s' % ({hex(k): v for k, v in (tbl or {}).items()}))
+        ia = {k: asg.get('header.info_header.bitmask_' + k) for k in 'rgba'}
+        ctx.check(all(v is not None for v in ia.values()) and [(int_value(through(ia[k])) or 0) & 0xFFFFFFFF for k in 'rgba'] == [0xFF, 0xFF00, 0xFF0000, 0xFF000000], R, 'bitfields|saver-masks', ih[0], 'saver declares r,g,b,a at bytes 0,1,2,3 (memory order)', 'saver masks are %s' % {k: (hex(int_value(through(v)) & 0xFFFFFFFF) if v is not None and int_value(through(v)) is not None else None) for k, v in ia.items()})
 
     # ------------------------------------------------------------------ R7
-    R = 'C06-R7'
-    wc = [f for f in u.functions if f.get('name') == 'write_png_chunk' and body_of(f) is not None and not is_dependent_pattern(f, u)]
-    ctx.require(len(wc) >= 1, 'write_png_chunk instantiation not found')
-    W = wc[0]
-    ctx.fn('write_png_chunk')
-    wps = params_of(W)
-    writes = [c for c in walk(body_of(W)) if c.get('kind') in ('CallExpr', 'CXXOperatorCallExpr') and (ref_decl(c['inner'][0] if c.get('kind') == 'CallExpr' else c['inner'][1]) or {}).get('name') == 'writer']
-    seq = []
-    for c in writes:
-        a = call_args(c) if c.get('kind') == 'CallExpr' else c['inner'][2:]
-        seq.append((nf(a[0]), nf(a[1])))
-    ctx.check(seq == [('&size', '4'), ('type', '4'), ('data', 'size.operator unsigned int()'), ('&crc', '4')] or
-              [s_[0] for s_ in seq] == ['&size', 'type', 'data', '&crc'] and seq[0][1] == '4' and seq[1][1] == '4' and seq[3][1] == '4' and 'size' in seq[2][1],
-              R, 'chunk|field-order', W, 'length, type, data, crc', 'chunk fields are written as %s' % seq)
-    ctx.check('big_endian<unsigned int>' in (qtype(wps[2]) or '') or 'be_uint32_t' in (qtype(wps[2]) or ''), R, 'chunk|length-big-endian', wps[2], 'length is a big-endian 32-bit wrapper', 'chunk length has type %s' % qtype(wps[2]))
-    crcv = next((v for v in walk(body_of(W)) if v.get('kind') == 'VarDecl' and v.get('name') == 'crc'), None)
-    ctx.check(crcv is not None and ('be_uint32_t' in (qtype(crcv) or '') or 'big_endian<unsigned int>' in (dtype(crcv) or '')), R, 'chunk|crc-big-endian', crcv or W, 'crc stored big-endian', 'crc variable has type %s' % (qtype(crcv) if crcv else None))
-    crcs = [c for c in walk_deep(body_of(W), u) if c.get('kind') == 'CallExpr' and call_name(c) == 'crc32']
-    okc = len(crcs) == 2
-    if okc:
-        a0, a1 = call_args(crcs[0]), call_args(crcs[1])
-        okc = int_value(a0[0]) == 0 and nf(a0[1]) == 'type' and int_value(a0[2]) == 4 and ('crc' in nf(a1[0]) or (ref_decl(a1[0]) or {}).get('kind') == 'VarDecl') and nf(a1[1]) == 'data' and 'size' in nf(a1[2])
-        d = callee_decl(crcs[0], u)
-        okc = okc and 'unsigned char' in ((d or {}).get('type', {}).get('qualType') or '') + 'Bytef' or okc
-    ctx.check(okc, R, 'chunk|crc-chain', W, 'crc32(0, type, 4) then crc32(crc, data, size)', 'CRC does not cover exactly the type followed by the data')
-    # a static local initialised from an argument keeps the first call's value for every later call
-    n_st = 0
-    for f_ in u.functions:
-        if body_of(f_) is None or not (f_.get('_file') or '').endswith('Image.cc'):
-            continue
-        pids = {p_['id'] for p_ in params_of(f_)}
-        for v_ in walk(body_of(f_)):
-            if v_.get('kind') == 'VarDecl' and v_.get('storageClass') == 'static' and kids(v_):
-                uses = [y for y in walk(kids(v_)[-1]) if y.get('kind') == 'DeclRefExpr' and (y.get('referencedDecl') or {}).get('id') in pids or y.get('kind') == 'CXXThisExpr']
-                if uses:
-                    n_st += 1
-                    ctx.bad(R, 'static-local|%s|%s' % (f_.get('name'), v_.get('name')), v_, 'static local `%s` in %s is initialised from the call\'s arguments (%s): it is computed on the first call only and every later call reuses that value' % (v_.get('name'), f_.get('name'), src_text(uses[0], 30)))
-    if not n_st:
-        ctx.ok(R, 'static-local|none', W, 'no static local in Image.cc is initialised from call arguments', nontrivial=False)
-    # zlib's crc32, not phosg's
-    zl = all('Bytef' in ((callee_decl(c, u) or {}).get('type', {}).get('qualType') or '') or 'unsigned char' in ((callee_decl(c, u) or {}).get('type', {}).get('qualType') or '') for c in crcs)
-    ctx.check(zl, R, 'chunk|zlib-crc', W, 'crc32 resolves to zlib (seed, bytes, length)', 'crc32 does not resolve to zlib\'s crc32: %s' % [((callee_decl(c, u) or {}).get('type', {}).get('qualType')) for c in crcs])
-    chunks = [c for c in walk(case_png) if c.get('kind') == 'CallExpr' and call_name(c) == 'write_png_chunk']
-    names = [strip(call_args(c)[0]).get('value', '').strip('"') for c in chunks]
-    ctx.check(names == ['IHDR', 'gAMA', 'IDAT', 'IEND'], R, 'png|chunk-order', case_png, 'IHDR gAMA IDAT IEND', 'chunks are %s' % names)
-    if chunks:
-        ih_ = chunks[0]
-        ln = call_args(ih_)[2]
-        lnv = None
-        for x in walk(ln):
-            if int_value(x) is not None:
-                lnv = int_value(x)
-                break
-        # struct size from its fields
-        st = None
-        for x in walk(case_png):
-            if x.get('kind') == 'CXXRecordDecl' and x.get('completeDefinition'):
-                st = x
-        fsz = sum(sizeof_type(dtype(f_)) or sizeof_type(qtype(f_)) or 0 for f_ in kids(st) if f_.get('kind') == 'FieldDecl') if st is not None else None
-        ln0 = next((y for y in walk(ln) if y.get('kind') == 'UnaryExprOrTypeTraitExpr'), None)
-        if lnv is None and ln0 is not None and ln0.get('kind') == 'UnaryExprOrTypeTraitExpr' and ln0.get('name') == 'sizeof' and st is not None:
-            of = {(ref_decl(y) or {}).get('id') for y in walk(ln0) if y.get('kind') == 'DeclRefExpr'}
-            arg = {(ref_decl(y) or {}).get('id') for y in walk(call_args(ih_)[1]) if y.get('kind') == 'DeclRefExpr'}
-            align1 = all((sizeof_type(dtype(f_)) or sizeof_type(qtype(f_))) == 1 or 'endian' in (dtype(f_) or '') or re.search(r'\b(be|le)_u?int', qtype(f_) or '') for f_ in kids(st) if f_.get('kind') == 'FieldDecl')
-            if of and of == arg and align1:
-                lnv = fsz      # sizeof the very object handed over; its fields are all alignment-1 types, so no padding
-        ctx.check(lnv == 13 and fsz == 13, R, 'png|ihdr-13', ih_, 'IHDR is 13 bytes and the struct has 13 bytes of fields', 'IHDR chunk length %s, struct fields total %s' % (lnv, fsz))
-        ct = [nf(x) for x in walk(case_png) if x.get('kind') == 'ConditionalOperator' and {int_value(x['inner'][1]), int_value(x['inner'][2])} == {6, 2}]
-        ctx.check(ct == ['(this.has_alpha ? 6 : 2)'], R, 'png|colour-type', case_png, 'colour type 6 with alpha, 2 without', 'colour type expression: %s' % ct)
-    sigv = next((v for v in walk(case_png) if v.get('kind') == 'VarDecl' and v.get('name') == 'SIG'), None)
-    sg = [int_value(x) for x in kids([il for il in walk(sigv) if il.get('kind') == 'InitListExpr'][0])] if sigv is not None else None
-    ctx.check(sg == [137, 80, 78, 71, 13, 10, 26, 10], R, 'png|signature', sigv or case_png, 'PNG signature', 'signature bytes %s' % sg)
-    # scanline layout: filter byte + row
-    from guard import subst_locals
-    isz = [renorm(subst_locals(nf(kids(v)[-1]), v)) for v in walk(case_png) if v.get('kind') == 'VarDecl' and v.get('name') == 'image_size' and kids(v)]
-    psz = next((subst_locals(nf(kids(v)[-1]), v) for v in walk(case_png) if v.get('kind') == 'VarDecl' and v.get('name') == 'pixel_size' and kids(v)), 'pixel_size')
-    want_isz = {renorm('(this.height * (1 + (pixel_size * this.width)))'), renorm('(this.height * (1 + (%s * this.width)))' % psz)}
-    ctx.check(len(isz) == 1 and isz[0] in want_isz, R, 'png|scanlines', case_png, 'H * (1 + W*pixel_size)', 'raw IDAT size is %s' % isz)
+    with ctx.section('C06-R7', L):
+        R = 'C06-R7'
+        wc = [f for f in u.functions if f.get('name') == 'write_png_chunk' and body_of(f) is not None and not is_dependent_pattern(f, u)]
+        ctx.require(len(wc) >= 1, 'write_png_chunk instantiation not found')
+        W = wc[0]
+        ctx.fn('write_png_chunk')
+        wps = params_of(W)
+        writes = [c for c in walk(body_of(W)) if c.get('kind') in ('CallExpr', 'CXXOperatorCallExpr') and (ref_decl(c['inner'][0] if c.get('kind') == 'CallExpr' else c['inner'][1]) or {}).get('name') == 'writer']
+        seq = []
+        for c in writes:
+            a = call_args(c) if c.get('kind') == 'CallExpr' else c['inner'][2:]
+            seq.append((nf(a[0]), nf(a[1])))
+        ctx.check(seq == [('&size', '4'), ('type', '4'), ('data', 'size.operator unsigned int()'), ('&crc', '4')] or
+                  [s_[0] for s_ in seq] == ['&size', 'type', 'data', '&crc'] and seq[0][1] == '4' and seq[1][1] == '4' and seq[3][1] == '4' and 'size' in seq[2][1],
+                  R, 'chunk|field-order', W, 'length, type, data, crc', 'chunk fields are written as %s' % seq)
+        ctx.check('big_endian<unsigned int>' in (qtype(wps[2]) or '') or 'be_uint32_t' in (qtype(wps[2]) or ''), R, 'chunk|length-big-endian', wps[2], 'length is a big-endian 32-bit wrapper', 'chunk length has type %s' % qtype(wps[2]))
+        crcv = next((v for v in walk(body_of(W)) if v.get('kind') == 'VarDecl' and v.get('name') == 'crc'), None)
+        ctx.check(crcv is not None and ('be_uint32_t' in (qtype(crcv) or '') or 'big_endian<unsigned int>' in (dtype(crcv) or '')), R, 'chunk|crc-big-endian', crcv or W, 'crc stored big-endian', 'crc variable has type %s' % (qtype(crcv) if crcv else None))
+        crcs = [c for c in walk_deep(body_of(W), u) if c.get('kind') == 'CallExpr' and call_name(c) == 'crc32']
+        okc = len(crcs) == 2
+        if okc:
+            a0, a1 = call_args(crcs[0]), call_args(crcs[1])
+            okc = int_value(a0[0]) == 0 and nf(a0[1]) == 'type' and int_value(a0[2]) == 4 and ('crc' in nf(a1[0]) or (ref_decl(a1[0]) or {}).get('kind') == 'VarDecl') and nf(a1[1]) == 'data' and 'size' in nf(a1[2])
+            d = callee_decl(crcs[0], u)
+            okc = okc and 'unsigned char' in ((d or {}).get('type', {}).get('qualType') or '') + 'Bytef' or okc
+        ctx.check(okc, R, 'chunk|crc-chain', W, 'crc32(0, type, 4) then crc32(crc, data, size)', 'CRC does not cover exactly the type followed by the data')
+        # a static local initialised from an argument keeps the first call's value for every later call
+        n_st = 0
+        for f_ in u.functions:
+            if body_of(f_) is None or not (f_.get('_file') or '').endswith('Image.cc'):
+                continue
+            pids = {p_['id'] for p_ in params_of(f_)}
+            for v_ in walk(body_of(f_)):
+                if v_.get('kind') == 'VarDecl' and v_.get('storageClass') == 'static' and kids(v_):
+                    uses = [y for y in walk(kids(v_)[-1]) if y.get('kind') == 'DeclRefExpr' and (y.get('referencedDecl') or {}).get('id') in pids or y.get('kind') == 'CXXThisExpr']
+                    if uses:
+                        n_st += 1
+                        ctx.bad(R, 'static-local|%s|%s' % (f_.get('name'), v_.get('name')), v_, 'static local `%s` in %s is initialised from the call\'s arguments (%s): it is computed on the first call only and every later call reuses that value' % (v_.get('name'), f_.get('name'), src_text(uses[0], 30)))
+        if not n_st:
+            ctx.ok(R, 'static-local|none', W, 'no static local in Image.cc is initialised from call arguments', nontrivial=False)
+        # zlib's crc32, not phosg's
+        zl = all('Bytef' in ((callee_decl(c, u) or {}).get('type', {}).get('qualType') or '') or 'unsigned char' in ((callee_decl(c, u) or {}).get('type', {}).get('qualType') or '') for c in crcs)
+        ctx.check(zl, R, 'chunk|zlib-crc', W, 'crc32 resolves to zlib (seed, bytes, length)', 'crc32 does not resolve to zlib\'s crc32: %s' % [((callee_decl(c, u) or {}).get('type', {}).get('qualType')) for c in crcs])
+        chunks = [c for c in walk(case_png) if c.get('kind') == 'CallExpr' and call_name(c) == 'write_png_chunk']
+        names = [strip(call_args(c)[0]).get('value', '').strip('"') for c in chunks]
+        ctx.check(names == ['IHDR', 'gAMA', 'IDAT', 'IEND'], R, 'png|chunk-order', case_png, 'IHDR gAMA IDAT IEND', 'chunks are %s' % names)
+        if chunks:
+            ih_ = chunks[0]
+            ln = call_args(ih_)[2]
+            lnv = None
+            for x in walk(ln):
+                if int_value(x) is not None:
+                    lnv = int_value(x)
+                    break
+            # struct size from its fields
+            st = None
+            for x in walk(case_png):
+                if x.get('kind') == 'CXXRecordDecl' and x.get('completeDefinition'):
+                    st = x
+            fsz = sum(sizeof_type(dtype(f_)) or sizeof_type(qtype(f_)) or 0 for f_ in kids(st) if f_.get('kind') == 'FieldDecl') if st is not None else None
+            ln0 = next((y for y in walk(ln) if y.get('kind') == 'UnaryExprOrTypeTraitExpr'), None)
+            if lnv is None and ln0 is not None and ln0.get('kind') == 'UnaryExprOrTypeTraitExpr' and ln0.get('name') == 'sizeof' and st is not None:
+                of = {(ref_decl(y) or {}).get('id') for y in walk(ln0) if y.get('kind') == 'DeclRefExpr'}
+                arg = {(ref_decl(y) or {}).get('id') for y in walk(call_args(ih_)[1]) if y.get('kind') == 'DeclRefExpr'}
+                align1 = all((sizeof_type(dtype(f_)) or sizeof_type(qtype(f_))) == 1 or 'endian' in (dtype(f_) or '') or re.search(r'\b(be|le)_u?int', qtype(f_) or '') for f_ in kids(st) if f_.get('kind') == 'FieldDecl')
+                if of and of == arg and align1:
+                    lnv = fsz      # sizeof the very object handed over; its fields are all alignment-1 types, so no padding
+            ctx.check(lnv == 13 and fsz == 13, R, 'png|ihdr-13', ih_, 'IHDR is 13 bytes and the struct has 13 bytes of fields', 'IHDR chunk length %s, struct fields total %s' % (lnv, fsz))
+            ct = [nf(x) for x in walk(case_png) if x.get('kind') == 'ConditionalOperator' and {int_value(x['inner'][1]), int_value(x['inner'][2])} == {6, 2}]
+            ctx.check(ct == ['(this.has_alpha ? 6 : 2)'], R, 'png|colour-type', case_png, 'colour type 6 with alpha, 2 without', 'colour type expression: %s' % ct)
+        sigv = next((v for v in walk(case_png) if v.get('kind') == 'VarDecl' and v.get('name') == 'SIG'), None)
+        sg = [int_value(x) for x in kids([il for il in walk(sigv) if il.get('kind') == 'InitListExpr'][0])] if sigv is not None else None
+        ctx.check(sg == [137, 80, 78, 71, 13, 10, 26, 10], R, 'png|signature', sigv or case_png, 'PNG signature', 'signature bytes %s' % sg)
+        # scanline layout: filter byte + row
+        from guard import subst_locals
+        isz = [renorm(subst_locals(nf(kids(v)[-1]), v)) for v in walk(case_png) if v.get('kind') == 'VarDecl' and v.get('name') == 'image_size' and kids(v)]
+        psz = next((subst_locals(nf(kids(v)[-1]), v) for v in walk(case_png) if v.get('kind') == 'VarDecl' and v.get('name') == 'pixel_size' and kids(v)), 'pixel_size')
+        want_isz = {renorm('(this.height * (1 + (pixel_size * this.width)))'), renorm('(this.height * (1 + (%s * this.width)))' % psz)}
+        ctx.check(len(isz) == 1 and isz[0] in want_isz, R, 'png|scanlines', case_png, 'H * (1 + W*pixel_size)', 'raw IDAT size is %s' % isz)
 
     # ------------------------------------------------------------------ R8
-    R = 'C06-R8'
-    sig_chain = [s for s in stmts_of(lbody) if s.get('kind') == 'IfStmt'][0]
-    tab = []
-    s = sig_chain
-    while s is not None and s.get('kind') == 'IfStmt':
-        cond, then, els = if_parts(s)
-        chars = []
-        for n_, pol in atoms([Fact(cond, True, s)]):
-            r = relation(n_, pol)
-            if r and r[1] == '==' and int_value(r[2]) is not None:
-                chars.append((canon(r[0]), chr(int_value(r[2]))))
-        fm = [canon(x['inner'][1]) for x in walk(then) if x.get('kind') == 'BinaryOperator' and x.get('opcode') == '=' and canon(x['inner'][0]) == 'format']
-        ext = [int_value(x['inner'][1]) for x in walk(then) if x.get('kind') == 'BinaryOperator' and x.get('opcode') == '=' and canon(x['inner'][0]) == 'is_extended_ppm']
-        tab.append((''.join(c for _, c in sorted(chars)), fm[0].split('::')[-1] if fm else None, bool(ext and ext[0])))
-        s = els
-    want_tab = [('P5', 'GRAYSCALE_PPM', False), ('P6', 'COLOR_PPM', False), ('P7', 'COLOR_PPM', True), ('BM', 'WINDOWS_BITMAP', False)]
-    ctx.check(sorted(tab) == sorted(want_tab), R, 'signature-dispatch', sig_chain, 'P5/P6/P7/BM', 'signature table is %s' % tab)
-    tt = {}
-    for x in walk(lbody):
-        if x.get('kind') == 'IfStmt':
-            cond, then, els = if_parts(x)
-            r = relation(cond, True)
-            if r and r[1] == '==' and canon(r[0]) == 'tuple_type' and strip(r[2]).get('kind') == 'StringLiteral':
-                fm = [canon(y['inner'][1]).split('::')[-1] for y in walk(then) if y.get('kind') == 'BinaryOperator' and y.get('opcode') == '=' and canon(y['inner'][0]) == 'format']
-                dp = [int_value(y['inner'][1]) for y in walk(then) if y.get('kind') == 'BinaryOperator' and y.get('opcode') == '=' and canon(y['inner'][0]) == 'new_depth']
-                tt[strip(r[2])['value'].strip('"')] = (fm[0] if fm else None, dp[0] if dp else None)
-    ctx.check(tt == {'GRAYSCALE': ('GRAYSCALE_PPM', 3), 'GRAYSCALE_ALPHA': ('GRAYSCALE_PPM', 4), 'RGB': ('COLOR_PPM', 3), 'RGB_ALPHA': ('COLOR_PPM', 4)}, R, 'tupltype-table', L, 'TUPLTYPE table', 'TUPLTYPE table is %s' % tt)
-    # channel width: the chain that assigns 8/16/32/64 is evaluated (E-TABLE) at every mask boundary
-    from peval import PEval as _PE, Undecided as _PU, Fault as _PF
-    chains = []
-    for x in walk(lbody):
-        if x.get('kind') == 'IfStmt' and not ((x.get('_p') or {}).get('kind') == 'IfStmt' and if_parts(x.get('_p'))[2] is x):
-            asg = [(ref_decl(y['inner'][0]), int_value(y['inner'][1])) for y in walk(x) if y.get('kind') == 'BinaryOperator' and y.get('opcode') == '=' and ref_decl(y['inner'][0]) is not None]
-            if len(asg) >= 4 and {v_ for _, v_ in asg} == {8, 16, 32, 64} and len({d_['id'] for d_, _ in asg}) == 1:
-                chains.append((x, asg[0][0]))
-    if len(chains) != 1:
-        ctx.undecided(R, 'channel-width-thresholds', L, 'the chain selecting the channel width (8/16/32/64) from the max value was not found (%d candidates)' % len(chains))
-    else:
-        chain_, cwd_ = chains[0]
-        inputs = {(ref_decl(y) or {}).get('id') for y in walk(if_parts(chain_)[0]) if y.get('kind') == 'DeclRefExpr'} - {None}
-        bad_ = None
-        if len(inputs) != 1:
-            ctx.undecided(R, 'channel-width-thresholds', chain_, 'the channel-width chain tests more than one variable')
+    with ctx.section('C06-R8', L):
+        R = 'C06-R8'
+        sig_chain = [s for s in stmts_of(lbody) if s.get('kind') == 'IfStmt'][0]
+        tab = []
+        s = sig_chain
+        while s is not None and s.get('kind') == 'IfStmt':
+            cond, then, els = if_parts(s)
+            chars = []
+            for n_, pol in atoms([Fact(cond, True, s)]):
+                r = relation(n_, pol)
+                if r and r[1] == '==' and int_value(r[2]) is not None:
+                    chars.append((canon(r[0]), chr(int_value(r[2]))))
+            fm = [canon(x['inner'][1]) for x in walk(then) if x.get('kind') == 'BinaryOperator' and x.get('opcode') == '=' and canon(x['inner'][0]) == 'format']
+            ext = [int_value(x['inner'][1]) for x in walk(then) if x.get('kind') == 'BinaryOperator' and x.get('opcode') == '=' and canon(x['inner'][0]) == 'is_extended_ppm']
+            tab.append((''.join(c for _, c in sorted(chars)), fm[0].split('::')[-1] if fm else None, bool(ext and ext[0])))
+            s = els
+        want_tab = [('P5', 'GRAYSCALE_PPM', False), ('P6', 'COLOR_PPM', False), ('P7', 'COLOR_PPM', True), ('BM', 'WINDOWS_BITMAP', False)]
+        ctx.check(sorted(tab) == sorted(want_tab), R, 'signature-dispatch', sig_chain, 'P5/P6/P7/BM', 'signature table is %s' % tab)
+        tt = {}
+        for x in walk(lbody):
+            if x.get('kind') == 'IfStmt':
+                cond, then, els = if_parts(x)
+                r = relation(cond, True)
+                if r and r[1] == '==' and canon(r[0]) == 'tuple_type' and strip(r[2]).get('kind') == 'StringLiteral':
+                    fm = [canon(y['inner'][1]).split('::')[-1] for y in walk(then) if y.get('kind') == 'BinaryOperator' and y.get('opcode') == '=' and canon(y['inner'][0]) == 'format']
+                    dp = [int_value(y['inner'][1]) for y in walk(then) if y.get('kind') == 'BinaryOperator' and y.get('opcode') == '=' and canon(y['inner'][0]) == 'new_depth']
+                    tt[strip(r[2])['value'].strip('"')] = (fm[0] if fm else None, dp[0] if dp else None)
+        ctx.check(tt == {'GRAYSCALE': ('GRAYSCALE_PPM', 3), 'GRAYSCALE_ALPHA': ('GRAYSCALE_PPM', 4), 'RGB': ('COLOR_PPM', 3), 'RGB_ALPHA': ('COLOR_PPM', 4)}, R, 'tupltype-table', L, 'TUPLTYPE table', 'TUPLTYPE table is %s' % tt)
+        # channel width: the chain that assigns 8/16/32/64 is evaluated (E-TABLE) at every mask boundary
+        from peval import PEval as _PE, Undecided as _PU, Fault as _PF
+        chains = []
+        for x in walk(lbody):
+            if x.get('kind') == 'IfStmt' and not ((x.get('_p') or {}).get('kind') == 'IfStmt' and if_parts(x.get('_p'))[2] is x):
+                asg = [(ref_decl(y['inner'][0]), int_value(y['inner'][1])) for y in walk(x) if y.get('kind') == 'BinaryOperator' and y.get('opcode') == '=' and ref_decl(y['inner'][0]) is not None]
+                if len(asg) >= 4 and {v_ for _, v_ in asg} == {8, 16, 32, 64} and len({d_['id'] for d_, _ in asg}) == 1:
+                    chains.append((x, asg[0][0]))
+        if len(chains) != 1:
+            ctx.undecided(R, 'channel-width-thresholds', L, 'the chain selecting the channel width (8/16/32/64) from the max value was not found (%d candidates)' % len(chains))
         else:
-            mvid = inputs.pop()
-            try:
-                for mv in (1, 2, 0xFE, 0xFF, 0x100, 0x101, 0xFFFE, 0xFFFF, 0x10000, 0x10001, 0xFFFFFFFE, 0xFFFFFFFF, 0x100000000, 0x100000001, (1 << 63), (1 << 64) - 1):
-                    env_ = {mvid: mv, cwd_['id']: ('uninit',)}
-                    _PE([u]).run([chain_], env_)
-                    want_ = 8 if mv <= 0xFF else 16 if mv <= 0xFFFF else 32 if mv <= 0xFFFFFFFF else 64
-                    if env_[cwd_['id']] != want_ and bad_ is None:
-                        bad_ = (mv, env_[cwd_['id']], want_)
-                ctx.check(bad_ is None, R, 'channel-width-thresholds', chain_, 'max value -> narrowest of 8/16/32/64 bits that holds it (16 boundary values evaluated)',
-                          'a max value of %s selects a channel width of %s bits; the narrowest width holding it is %s' % ((hex(bad_[0]), bad_[1], bad_[2]) if bad_ else ('', '', '')))
-            except (_PU, _PF) as e_:
-                ctx.undecided(R, 'channel-width-thresholds', chain_, 'the channel-width chain could not be evaluated (%s)' % e_)
-    hdr = [strip(call_args(c)[2]).get('value', '') for c in walk(svb) if c.get('kind') == 'CallExpr' and call_name(c) == 'snprintf' and strip(call_args(c)[2]).get('kind') == 'StringLiteral']
-    okp = len(hdr) == 2 and any(h.startswith('"P7\\nWIDTH %zu\\nHEIGHT %zu\\nDEPTH 4\\nMAXVAL %lu\\nTUPLTYPE RGB_ALPHA\\nENDHDR\\n') for h in hdr) and any(h.startswith('"P6 %zu %zu %lu\\n') for h in hdr)
-    ctx.check(okp, R, 'ppm-headers', SV, 'P6 / P7 headers carry width, height, maxval (and RGB_ALPHA)', 'PPM header formats are %s' % hdr)
-    # ------------------------------------------------------------------ R9
-    # every valid PAM (P7) header is accepted and the pixel read consumes exactly the file's samples:
-    # the loader's statements after the signature dispatch are partially evaluated (E-TABLE) with the
-    # FILE modelled as a constant byte stream holding a spec-conformant header + pixel bytes.
-    R = 'C06-R9'
-    from peval import PEval, Stream, Thrown, Undecided as PUndecided, Fault as PFault
-    top = stmts_of(lbody)
-    ctx.require(sig_chain in top, 'load(): signature dispatch is not a top-level statement')
-    rest = top[top.index(sig_chain) + 1:]
-    p7_then = None
-    s_ = sig_chain
-    while s_ is not None and s_.get('kind') == 'IfStmt':
-        cond, then, els = if_parts(s_)
-        cs = sorted(chr(int_value(relation(n_, pol)[2])) for n_, pol in atoms([Fact(cond, True, s_)]) if relation(n_, pol) and relation(n_, pol)[1] == '==' and int_value(relation(n_, pol)[2]) is not None)
-        if cs == ['7', 'P']:
-            p7_then = then
-        s_ = els
-    ctx.require(p7_then is not None, 'load(): the P7 signature branch was not found')
-    fparam = params_of(L)[0]
-    W_, H_ = 37, 23
-    for tname, depth_ in (('GRAYSCALE', 1), ('GRAYSCALE_ALPHA', 2), ('RGB', 3), ('RGB_ALPHA', 4)):
-        for maxval, bps in ((255, 1), (65535, 2)):
-            for order in (0, 1):
-                fields = ['WIDTH %d' % W_, 'HEIGHT %d' % H_, 'DEPTH %d' % depth_, 'MAXVAL %d' % maxval, 'TUPLTYPE %s' % tname]
-                if order:
-                    fields = [fields[4], fields[3], fields[2], fields[1], fields[0]]
-                npix = W_ * H_ * depth_ * bps
-                data = ('\n' + '\n'.join(fields) + '\nENDHDR\n').encode() + bytes(npix)
-                key = 'p7|%s|maxval=%d|order=%d' % (tname, maxval, order)
-                pe = PEval([u, us], max_depth=8)
-                st = Stream(data)
-                env = {fparam['id']: st}
-                # locals declared before the dispatch (format, is_extended_ppm, ...) start uninitialised
-                for d_ in top[:top.index(sig_chain)]:
-                    if d_.get('kind') == 'DeclStmt':
-                        for vd in kids(d_):
-                            if vd.get('kind') == 'VarDecl':
-                                env[vd['id']] = ('uninit',)
-                                if kids(vd):
-                                    try:
-                                        env[vd['id']] = pe.ev(kids(vd)[-1], env)
-                                    except (PUndecided, PFault):
-                                        pass
-                verdict, why, where = None, '', L
+            chain_, cwd_ = chains[0]
+            inputs = {(ref_decl(y) or {}).get('id') for y in walk(if_parts(chain_)[0]) if y.get('kind') == 'DeclRefExpr'} - {None}
+            bad_ = None
+            if len(inputs) != 1:
+                ctx.undecided(R, 'channel-width-thresholds', chain_, 'the channel-width chain tests more than one variable')
+            else:
+                mvid = inputs.pop()
                 try:
-                    pe.run([p7_then], env)
-                    pe.run(rest, env)
-                    verdict = 'end'
-                except Thrown as t:
-                    verdict, why, where = 'throw', str(t), (t.node or L)
-                except PFault as t:
-                    verdict, why = 'fault', str(t)
-                except PUndecided as t:
-                    verdict, why = 'stop', str(t)
-                except Exception as t:      # control-flow signals of the evaluator (return)
-                    verdict, why = 'stop', type(t).__name__
-                reads = getattr(pe, 'reads', [])
-                if verdict == 'throw':
-                    ctx.bad(R, key, where, 'a spec-conformant PAM file (%s, %dx%d, DEPTH %d, MAXVAL %d) is rejected: %s at `%s`' % (tname, W_, H_, depth_, maxval, why, src_text(where, 70)))
-                elif verdict == 'fault':
-                    ctx.bad(R, key, where, 'loading a spec-conformant PAM file (%s, DEPTH %d, MAXVAL %d) faults: %s' % (tname, depth_, maxval, why))
-                elif not reads:
-                    ctx.undecided(R, key, L, 'evaluation stopped before the pixel read (%s)' % why)
-                else:
-                    ctx.check(reads == [npix] and st.pos == len(data), R, key, L, 'header accepted; pixel read consumes exactly %d bytes (%d samples/pixel x %d byte(s))' % (npix, depth_, bps),
-                              'for a valid %s PAM file (%dx%d, MAXVAL %d) the loader reads %s bytes of pixel data; the file holds %d (%d samples/pixel x %d byte(s))' % (tname, W_, H_, maxval, reads, npix, depth_, bps))
+                    for mv in (1, 2, 0xFE, 0xFF, 0x100, 0x101, 0xFFFE, 0xFFFF, 0x10000, 0x10001, 0xFFFFFFFE, 0xFFFFFFFF, 0x100000000, 0x100000001, (1 << 63), (1 << 64) - 1):
+                        env_ = {mvid: mv, cwd_['id']: ('uninit',)}
+                        _PE([u]).run([chain_], env_)
+                        want_ = 8 if mv <= 0xFF else 16 if mv <= 0xFFFF else 32 if mv <= 0xFFFFFFFF else 64
+                        if env_[cwd_['id']] != want_ and bad_ is None:
+                            bad_ = (mv, env_[cwd_['id']], want_)
+                    ctx.check(bad_ is None, R, 'channel-width-thresholds', chain_, 'max value -> narrowest of 8/16/32/64 bits that holds it (16 boundary values evaluated)',
+                              'a max value of %s selects a channel width of %s bits; the narrowest width holding it is %s' % ((hex(bad_[0]), bad_[1], bad_[2]) if bad_ else ('', '', '')))
+                except (_PU, _PF) as e_:
+                    ctx.undecided(R, 'channel-width-thresholds', chain_, 'the channel-width chain could not be evaluated (%s)' % e_)
+        hdr = [strip(call_args(c)[2]).get('value', '') for c in walk(svb) if c.get('kind') == 'CallExpr' and call_name(c) == 'snprintf' and strip(call_args(c)[2]).get('kind') == 'StringLiteral']
+        okp = len(hdr) == 2 and any(h.startswith('"P7\\nWIDTH %zu\\nHEIGHT %zu\\nDEPTH 4\\nMAXVAL %lu\\nTUPLTYPE RGB_ALPHA\\nENDHDR\\n') for h in hdr) and any(h.startswith('"P6 %zu %zu %lu\\n') for h in hdr)
+        ctx.check(okp, R, 'ppm-headers', SV, 'P6 / P7 headers carry width, height, maxval (and RGB_ALPHA)', 'PPM header formats are %s' % hdr)
+    # ------------------------------------------------------------------ R9
+    with ctx.section('C06-R9', L):
+        # every valid PAM (P7) header is accepted and the pixel read consumes exactly the file's samples:
+        # the loader's statements after the signature dispatch are partially evaluated (E-TABLE) with the
+        # FILE modelled as a constant byte stream holding a spec-conformant header + pixel bytes.
+        R = 'C06-R9'
+        from peval import PEval, Stream, Thrown, Undecided as PUndecided, Fault as PFault
+        top = stmts_of(lbody)
+        ctx.need(sig_chain in top, 'load(): signature dispatch is not a top-level statement')
+        rest = top[top.index(sig_chain) + 1:]
+        p7_then = None
+        s_ = sig_chain
+        while s_ is not None and s_.get('kind') == 'IfStmt':
+            cond, then, els = if_parts(s_)
+            cs = sorted(chr(int_value(relation(n_, pol)[2])) for n_, pol in atoms([Fact(cond, True, s_)]) if relation(n_, pol) and relation(n_, pol)[1] == '==' and int_value(relation(n_, pol)[2]) is not None)
+            if cs == ['7', 'P']:
+                p7_then = then
+            s_ = els
+        ctx.need(p7_then is not None, 'load(): the P7 signature branch was not found')
+        fparam = params_of(L)[0]
+        W_, H_ = 37, 23
+        for tname, depth_ in (('GRAYSCALE', 1), ('GRAYSCALE_ALPHA', 2), ('RGB', 3), ('RGB_ALPHA', 4)):
+            for maxval, bps in ((255, 1), (65535, 2)):
+                for order in (0, 1):
+                    fields = ['WIDTH %d' % W_, 'HEIGHT %d' % H_, 'DEPTH %d' % depth_, 'MAXVAL %d' % maxval, 'TUPLTYPE %s' % tname]
+                    if order:
+                        fields = [fields[4], fields[3], fields[2], fields[1], fields[0]]
+                    npix = W_ * H_ * depth_ * bps
+                    data = ('\n' + '\n'.join(fields) + '\nENDHDR\n').encode() + bytes(npix)
+                    key = 'p7|%s|maxval=%d|order=%d' % (tname, maxval, order)
+                    pe = PEval([u, us], max_depth=8)
+                    st = Stream(data)
+                    env = {fparam['id']: st}
+                    # locals declared before the dispatch (format, is_extended_ppm, ...) start uninitialised
+                    for d_ in top[:top.index(sig_chain)]:
+                        if d_.get('kind') == 'DeclStmt':
+                            for vd in kids(d_):
+                                if vd.get('kind') == 'VarDecl':
+                                    env[vd['id']] = ('uninit',)
+                                    if kids(vd):
+                                        try:
+                                            env[vd['id']] = pe.ev(kids(vd)[-1], env)
+                                        except (PUndecided, PFault):
+                                            pass
+                    verdict, why, where = None, '', L
+                    try:
+                        pe.run([p7_then], env)
+                        pe.run(rest, env)
+                        verdict = 'end'
+                    except Thrown as t:
+                        verdict, why, where = 'throw', str(t), (t.node or L)
+                    except PFault as t:
+                        verdict, why = 'fault', str(t)
+                    except PUndecided as t:
+                        verdict, why = 'stop', str(t)
+                    except Exception as t:      # control-flow signals of the evaluator (return)
+                        verdict, why = 'stop', type(t).__name__
+                    reads = getattr(pe, 'reads', [])
+                    if verdict == 'throw':
+                        ctx.bad(R, key, where, 'a spec-conformant PAM file (%s, %dx%d, DEPTH %d, MAXVAL %d) is rejected: %s at `%s`' % (tname, W_, H_, depth_, maxval, why, src_text(where, 70)))
+                    elif verdict == 'fault':
+                        ctx.bad(R, key, where, 'loading a spec-conformant PAM file (%s, DEPTH %d, MAXVAL %d) faults: %s' % (tname, depth_, maxval, why))
+                    elif not reads:
+                        ctx.undecided(R, key, L, 'evaluation stopped before the pixel read (%s)' % why)
+                    else:
+                        ctx.check(reads == [npix] and st.pos == len(data), R, key, L, 'header accepted; pixel read consumes exactly %d bytes (%d samples/pixel x %d byte(s))' % (npix, depth_, bps),
+                                  'for a valid %s PAM file (%dx%d, MAXVAL %d) the loader reads %s bytes of pixel data; the file holds %d (%d samples/pixel x %d byte(s))' % (tname, W_, H_, maxval, reads, npix, depth_, bps))
+    if not any(o.rule == 'C06-R9' for o in ctx.obs):
+        ctx.rules['C06-R9'] = (ctx.rules['C06-R9'][0], 0)      # nothing could be evaluated: every case is listed as undecided
     ctx.note('Not decided: pixel-exact identity for every image, validity under an independent decoder, zlib stream contents, behaviour on every truncated prefix (R3+R4 give the exception/no-leak half only).')
